@@ -1,5 +1,5 @@
 (** * Proofs/PotentialsRProofs.v — lemmas about Model/PotentialsR.v and Model/CoulombBoundR.v (C02, C03). *)
-From Coq Require Import Reals Lra Lia List.
+From Coq Require Import Reals Lra Lia List ZArith.
 From Coquelicot Require Import Coquelicot.
 Require Import JF.Model.PotentialsR JF.Model.CoulombBoundR.
 Import ListNotations.
@@ -948,4 +948,1349 @@ Proof.
       apply List.Forall_cons; [lra|]. apply List.Forall_cons; [lra|]. apply List.Forall_cons; [lra|].
       apply List.Forall_nil.
     + apply List.Forall_cons; [lra | apply List.Forall_nil].
+Qed.
+
+(** ** C02: Mexican-hat potentials, all four geometric cases, for any [mexhat] record that is well formed *)
+Definition mh_wf (m : mexhat) : Prop :=
+  0 < mh_r0 m /\ mh_r0sq m = mh_r0 m * mh_r0 m /\
+  (forall a b, mh_r0sq m <= a -> a < b -> mh_pot m a < mh_pot m b) /\
+  (forall a b, 0 < a -> a < b -> b <= mh_r0sq m -> mh_pot m b < mh_pot m a) /\
+  (forall U rn, mh_pot m (mh_r0sq m) < U -> mh_inv_out m U = Some rn ->
+                0 <= rn /\ mh_r0sq m <= rn * rn /\ mh_pot m (rn * rn) = U) /\
+  (forall U, mh_pot m (mh_r0sq m) < U -> mh_inv_out m U = None ->
+             forall a, mh_r0sq m <= a -> mh_pot m a < U) /\
+  (forall U qq, 0 < qq -> qq <= mh_r0sq m -> mh_pot m (mh_r0sq m) < U -> U < mh_pot m qq ->
+                0 < mh_inv_in m U /\ mh_inv_in m U * mh_inv_in m U <= mh_r0sq m /\
+                mh_pot m (mh_inv_in m U * mh_inv_in m U) = U).
+
+Lemma mh_pot_le_out (m : mexhat) a b : mh_wf m -> mh_r0sq m <= a -> a <= b -> mh_pot m a <= mh_pot m b.
+Proof.
+  intros (_ & _ & Ho & _) Ha [Hab| ->]; [left; apply Ho; assumption | right; reflexivity].
+Qed.
+Lemma mh_pot_le_in (m : mexhat) a b : mh_wf m -> 0 < a -> a <= b -> b <= mh_r0sq m -> mh_pot m b <= mh_pot m a.
+Proof.
+  intros (_ & _ & _ & Hi & _) Ha [Hab| ->] Hb; [left; apply Hi; assumption | right; reflexivity].
+Qed.
+
+(** *** values of the four routines *)
+Lemma mh_FO_val (m : mexhat) (dE x q : R) :
+  mh_wf m -> x <= 0 -> mh_r0sq m <= q + x * x -> 0 < dE -> 0 <= q ->
+  match mh_front_outside m (mh_pot m (q + x * x)) dE x q with
+  | Some d => exists rn, d = x + sqrt (rn * rn - q) /\ q + x * x < rn * rn /\
+                         mh_pot m (rn * rn) = mh_pot m (q + x * x) + dE
+  | None => forall a, mh_r0sq m <= a -> mh_pot m a < mh_pot m (q + x * x) + dE
+  end.
+Proof.
+  intros Hwf Hx Hout HdE Hq.
+  pose proof Hwf as (Hr0 & Esq & Ho & Hi & Hio & Hnone & Hii).
+  unfold mh_front_outside.
+  set (U0 := mh_pot m (q + x * x)).
+  assert (Hmin : mh_pot m (mh_r0sq m) <= U0) by (apply mh_pot_le_out; [assumption | lra | assumption]).
+  assert (HUlt : mh_pot m (mh_r0sq m) < U0 + dE) by lra.
+  destruct (mh_inv_out m (U0 + dE)) as [rn|] eqn:E.
+  - destruct (Hio _ _ HUlt E) as (Hrn & Hrn2 & Hpot).
+    exists rn. split; [reflexivity|]. split; [|exact Hpot].
+    destruct (Rlt_le_dec (q + x * x) (rn * rn)) as [L|L]; [exact L|]. exfalso.
+    pose proof (mh_pot_le_out m _ _ Hwf Hrn2 L) as M. fold U0 in M. lra.
+  - apply Hnone; assumption.
+Qed.
+
+Lemma mh_FI_val (m : mexhat) (dE x q : R) :
+  q <= mh_r0sq m ->
+  let w := sqrt (mh_r0sq m - q) in
+  mh_front_inside m dE x q = xadd (x + w) (mh_front_outside m (mh_pot m (q + (- w) * (- w))) dE (- w) q).
+Proof.
+  intros Hq w. unfold mh_front_inside, until_neg. fold w. cbv zeta.
+  replace (x - (x + w)) with (- w) by ring. reflexivity.
+Qed.
+
+Lemma w_sq (R q : R) : q <= R -> q + (- sqrt (R - q)) * (- sqrt (R - q)) = R.
+Proof. intros. replace (- sqrt (R - q) * - sqrt (R - q)) with (sqrt (R - q) * sqrt (R - q)) by ring.
+  rewrite sqrt_sqrt by lra. ring. Qed.
+Lemma w_sq' (R q : R) : q <= R -> q + sqrt (R - q) * sqrt (R - q) = R.
+Proof. intros. rewrite sqrt_sqrt by lra. ring. Qed.
+
+Lemma mh_BI_val (m : mexhat) (dE x q : R) :
+  mh_wf m -> 0 <= x -> 0 < q -> q + x * x <= mh_r0sq m -> 0 < dE ->
+  let U0 := mh_pot m (q + x * x) in
+  (dE < mh_pot m q - U0 ->
+     exists rn, mh_behind_inside m U0 dE x q = Some (x - sqrt (rn * rn - q)) /\
+                q < rn * rn /\ rn * rn < q + x * x /\ mh_pot m (rn * rn) = U0 + dE) /\
+  (mh_pot m q - U0 <= dE ->
+     mh_behind_inside m U0 dE x q = xadd x (mh_front_inside m (dE - (mh_pot m q - U0)) 0 q)).
+Proof.
+  intros Hwf Hx Hq Hin HdE U0.
+  pose proof Hwf as (Hr0 & Esq & Ho & Hi & Hio & Hnone & Hii).
+  unfold mh_behind_inside. cbv zeta. replace (q + 0 * 0) with q by ring.
+  assert (Hmin : mh_pot m (mh_r0sq m) <= U0) by (apply mh_pot_le_in; [assumption | nra | assumption | lra]).
+  split; intros Hc.
+  - destruct (Rlt_dec dE (mh_pot m q - U0)) as [_|N]; [|contradiction].
+    assert (Hq' : q <= mh_r0sq m) by nra.
+    destruct (Hii (U0 + dE) q Hq Hq' ltac:(lra) ltac:(lra)) as (Hrn & Hrn2 & Hpot).
+    set (rn := mh_inv_in m (U0 + dE)) in *.
+    exists rn. split; [reflexivity|].
+    assert (Hpos : 0 < rn * rn) by nra.
+    split; [|split; [|exact Hpot]].
+    + destruct (Rlt_le_dec q (rn * rn)) as [L|L]; [exact L|]. exfalso.
+      pose proof (mh_pot_le_in m _ _ Hwf Hpos L Hq') as M. lra.
+    + destruct (Rlt_le_dec (rn * rn) (q + x * x)) as [L|L]; [exact L|]. exfalso.
+      assert (0 < q + x * x) by nra.
+      pose proof (mh_pot_le_in m _ _ Hwf H L Hrn2) as M. fold U0 in M. lra.
+  - destruct (Rlt_dec dE (mh_pot m q - U0)) as [Y|_]; [lra | reflexivity].
+Qed.
+
+Lemma mh_BO_val (m : mexhat) (dE x q : R) :
+  let w := sqrt (mh_r0sq m - q) in
+  (q <= mh_r0sq m -> mh_behind_outside m dE x q = xadd (x - w) (mh_behind_inside m (mh_pot m (q + w * w)) dE w q)) /\
+  (mh_r0sq m < q -> mh_behind_outside m dE x q = xadd x (mh_front_outside m (mh_pot m (q + 0 * 0)) dE 0 q)).
+Proof.
+  intros w. unfold mh_behind_outside, until_pos. fold w. split; intros H.
+  - destruct (Rle_dec 0 (mh_r0sq m - q)) as [_|N]; [|lra]. cbv zeta.
+    replace (x - (x - w)) with w by ring. reflexivity.
+  - destruct (Rle_dec 0 (mh_r0sq m - q)) as [Y|_]; [lra | reflexivity].
+Qed.
+
+(** *** evaluating the specification (positive variation over the monotone pieces) *)
+Lemma clamp_low d b : b <= 0 -> 0 <= d -> clamp d b = 0.
+Proof. intros. unfold clamp. apply Rmax_left. apply Rle_trans with b; [apply Rmin_r | assumption]. Qed.
+Lemma clamp_mid d b : 0 <= b -> b <= d -> clamp d b = b.
+Proof. intros. unfold clamp. rewrite Rmin_right by assumption. apply Rmax_right; assumption. Qed.
+Lemma clamp_high d b : d <= b -> 0 <= d -> clamp d b = d.
+Proof. intros. unfold clamp. rewrite Rmin_left by assumption. apply Rmax_right; assumption. Qed.
+
+Definition mh_path (m : mexhat) (x q s : R) : R := mh_pot m (q + (x - s) * (x - s)).
+
+Lemma mh_path_0 m x q : mh_path m x q 0 = mh_pot m (q + x * x).
+Proof. unfold mh_path. f_equal. ring. Qed.
+Lemma mh_path_x m x q : mh_path m x q x = mh_pot m q.
+Proof. unfold mh_path. f_equal. ring. Qed.
+Lemma mh_path_xmw m x q : q <= mh_r0sq m -> mh_path m x q (x - sqrt (mh_r0sq m - q)) = mh_pot m (mh_r0sq m).
+Proof. intros. unfold mh_path. f_equal. replace (x - (x - sqrt (mh_r0sq m - q))) with (sqrt (mh_r0sq m - q)) by ring.
+  apply w_sq'; assumption. Qed.
+Lemma mh_path_xpw m x q : q <= mh_r0sq m -> mh_path m x q (x + sqrt (mh_r0sq m - q)) = mh_pot m (mh_r0sq m).
+Proof. intros. unfold mh_path. f_equal. replace (x - (x + sqrt (mh_r0sq m - q))) with (- sqrt (mh_r0sq m - q)) by ring.
+  apply w_sq; assumption. Qed.
+Lemma mh_path_xpS m x q n2 : q <= n2 -> mh_path m x q (x + sqrt (n2 - q)) = mh_pot m n2.
+Proof. intros. unfold mh_path. f_equal. replace (x - (x + sqrt (n2 - q))) with (- sqrt (n2 - q)) by ring.
+  apply w_sq; assumption. Qed.
+Lemma mh_path_xmS m x q n2 : q <= n2 -> mh_path m x q (x - sqrt (n2 - q)) = mh_pot m n2.
+Proof. intros. unfold mh_path. f_equal. replace (x - (x - sqrt (n2 - q))) with (sqrt (n2 - q)) by ring.
+  apply w_sq'; assumption. Qed.
+
+Lemma sqrt_lt_sq (a b : R) : 0 <= a -> a < b -> sqrt a < sqrt b.
+Proof. intros. apply sqrt_lt_1_alt. split; assumption. Qed.
+Lemma sqrt_le_abs (a x : R) : 0 <= a -> a <= x * x -> x <= 0 -> sqrt a <= - x.
+Proof. intros. rewrite <- (sqrt_square (- x)) by lra. apply sqrt_le_1_alt. nra. Qed.
+Lemma sqrt_gt_abs (a x : R) : x * x < a -> x <= 0 -> - x < sqrt a.
+Proof. intros. rewrite <- (sqrt_square (- x)) by lra. apply sqrt_lt_1_alt. split; nra. Qed.
+Lemma sqrt_lt_pos (a x : R) : 0 <= a -> a < x * x -> 0 <= x -> sqrt a < x.
+Proof. intros. rewrite <- (sqrt_square x) by lra. apply sqrt_lt_1_alt. split; nra. Qed.
+Lemma sqrt_le_pos (a x : R) : 0 <= a -> a <= x * x -> 0 <= x -> sqrt a <= x.
+Proof. intros. rewrite <- (sqrt_square x) by lra. apply sqrt_le_1_alt. nra. Qed.
+
+Lemma r0_le_sqrt_iff (r0 A : R) : 0 < r0 -> 0 <= A -> (r0 <= sqrt A <-> r0 * r0 <= A).
+Proof.
+  intros Hr HA. split; intros H.
+  - rewrite <- (sqrt_sqrt A HA). pose proof (sqrt_pos A). nra.
+  - rewrite <- (sqrt_square r0) by lra. apply sqrt_le_1_alt. exact H.
+Qed.
+
+(** front inside, completely: walk to the sphere, then front outside from the sphere *)
+Lemma mh_FI_full (m : mexhat) (dE x q : R) :
+  mh_wf m -> q <= mh_r0sq m -> 0 <= q -> 0 < dE ->
+  let w := sqrt (mh_r0sq m - q) in
+  match mh_front_inside m dE x q with
+  | Some d => exists rn, d = x + w + (- w + sqrt (rn * rn - q)) /\ mh_r0sq m < rn * rn /\
+                         mh_pot m (rn * rn) = mh_pot m (mh_r0sq m) + dE
+  | None => forall a, mh_r0sq m <= a -> mh_pot m a < mh_pot m (mh_r0sq m) + dE
+  end.
+Proof.
+  intros Hwf Hq Hq0 HdE w.
+  rewrite (mh_FI_val m dE x q Hq). fold w.
+  pose proof (sqrt_pos (mh_r0sq m - q)) as Hw. fold w in Hw.
+  assert (E : q + - w * - w = mh_r0sq m) by (apply w_sq; exact Hq).
+  pose proof (mh_FO_val m dE (- w) q Hwf ltac:(lra) ltac:(lra) HdE Hq0) as V.
+  rewrite E in *.
+  destruct (mh_front_outside m (mh_pot m (mh_r0sq m)) dE (- w) q) as [d|]; simpl.
+  - destruct V as (rn & -> & Hlt & Hpot). exists rn. repeat split; assumption.
+  - exact V.
+Qed.
+
+
+Lemma breaks_front_nonpos (x q r0 : R) :
+  x <= 0 -> r0 * r0 <= q + x * x -> List.Forall (fun b => b <= 0) (breaks_mexhat x q r0).
+Proof.
+  intros Hx Hout. unfold breaks_mexhat. destruct (Rlt_dec q (r0 * r0)) as [Hin|Hin].
+  - pose proof (sqrt_le_abs (r0 * r0 - q) x ltac:(lra) ltac:(lra) Hx) as Hw.
+    pose proof (sqrt_pos (r0 * r0 - q)).
+    apply List.Forall_cons; [lra|]. apply List.Forall_cons; [lra|]. apply List.Forall_cons; [lra|].
+    apply List.Forall_nil.
+  - apply List.Forall_cons; [lra | apply List.Forall_nil].
+Qed.
+
+(** case 1: in front of the closest approach, outside the minimum sphere *)
+Lemma mh_case_front_outside (m : mexhat) (dE x q : R) :
+  mh_wf m -> 0 < q -> 0 < dE -> x <= 0 -> mh_r0sq m <= q + x * x ->
+  match mh_front_outside m (mh_pot m (q + x * x)) dE x q with
+  | Some d => 0 < d /\ Eplus (mh_path m x q) (breaks_mexhat x q (mh_r0 m)) d = dE
+  | None => forall d, 0 <= d -> Eplus (mh_path m x q) (breaks_mexhat x q (mh_r0 m)) d < dE
+  end.
+Proof.
+  intros Hwf Hq HdE Hx Hout.
+  pose proof Hwf as (Hr0 & Esq & _).
+  pose proof (mh_FO_val m dE x q Hwf Hx Hout HdE ltac:(lra)) as V.
+  assert (Hb : List.Forall (fun b => b <= 0) (breaks_mexhat x q (mh_r0 m))).
+  { apply breaks_front_nonpos; [exact Hx | rewrite <- Esq; exact Hout]. }
+  destruct (mh_front_outside m (mh_pot m (q + x * x)) dE x q) as [d|].
+  - destruct V as (rn & -> & Hlt & Hpot).
+    pose proof (sqrt_gt_abs (rn * rn - q) x ltac:(lra) Hx) as HS.
+    split; [lra|]. unfold Eplus. rewrite pos_var_breaks_nonpos by (try assumption; lra).
+    rewrite mh_path_xpS by nra. rewrite mh_path_0. rewrite Hpot. rmax_lra.
+  - intros d Hd. unfold Eplus. rewrite pos_var_breaks_nonpos by assumption.
+    rewrite mh_path_0.
+    assert (mh_path m x q d < mh_pot m (q + x * x) + dE).
+    { unfold mh_path. apply V. assert ((x - d) * (x - d) >= x * x) by nra. lra. }
+    rmax_lra.
+Qed.
+
+Lemma breaks_inside (m : mexhat) (x q : R) :
+  mh_wf m -> q < mh_r0sq m ->
+  breaks_mexhat x q (mh_r0 m) =
+  [x - sqrt (mh_r0sq m - q); x; x + sqrt (mh_r0sq m - q)].
+Proof.
+  intros (_ & Esq & _) H. unfold breaks_mexhat. rewrite <- Esq.
+  destruct (Rlt_dec q (mh_r0sq m)); [reflexivity | contradiction].
+Qed.
+Lemma breaks_outside (m : mexhat) (x q : R) :
+  mh_wf m -> mh_r0sq m <= q -> breaks_mexhat x q (mh_r0 m) = [x].
+Proof.
+  intros (_ & Esq & _) H. unfold breaks_mexhat. rewrite <- Esq.
+  destruct (Rlt_dec q (mh_r0sq m)); [lra | reflexivity].
+Qed.
+
+Lemma Eplus3 f b1 b2 b3 d :
+  Eplus f [b1; b2; b3] d =
+  Rmax 0 (f (clamp d b1) - f 0) + (Rmax 0 (f (clamp d b2) - f (clamp d b1)) +
+  (Rmax 0 (f (clamp d b3) - f (clamp d b2)) + Rmax 0 (f d - f (clamp d b3)))).
+Proof. reflexivity. Qed.
+Lemma Eplus1 f b1 d :
+  Eplus f [b1] d = Rmax 0 (f (clamp d b1) - f 0) + Rmax 0 (f d - f (clamp d b1)).
+Proof. reflexivity. Qed.
+
+(** case 2: in front of the closest approach, inside the minimum sphere *)
+Lemma mh_case_front_inside (m : mexhat) (dE x q : R) :
+  mh_wf m -> 0 < q -> 0 < dE -> x <= 0 -> q + x * x < mh_r0sq m ->
+  match mh_front_inside m dE x q with
+  | Some d => 0 < d /\ Eplus (mh_path m x q) (breaks_mexhat x q (mh_r0 m)) d = dE
+  | None => forall d, 0 <= d -> Eplus (mh_path m x q) (breaks_mexhat x q (mh_r0 m)) d < dE
+  end.
+Proof.
+  intros Hwf Hq HdE Hx Hin.
+  assert (HqR : q < mh_r0sq m) by nra.
+  pose proof (mh_FI_full m dE x q Hwf ltac:(lra) ltac:(lra) HdE) as V. cbv zeta in V.
+  rewrite (breaks_inside m x q Hwf HqR).
+  set (R := mh_r0sq m) in *. set (w := sqrt (R - q)) in *.
+  assert (Hww : w * w = R - q) by (apply sqrt_sqrt; lra).
+  assert (Hw : - x < w) by (apply sqrt_gt_abs; [lra | exact Hx]).
+  assert (Hf0 : mh_pot m R <= mh_pot m (q + x * x)) by (apply mh_pot_le_in; [assumption | nra | lra | unfold R; lra]).
+  destruct (mh_front_inside m dE x q) as [d|].
+  - destruct V as (rn & -> & Hlt & Hpot).
+    assert (HS : w < sqrt (rn * rn - q)) by (apply sqrt_lt_sq; lra).
+    set (S := sqrt (rn * rn - q)) in *.
+    split; [lra|]. rewrite Eplus3.
+    rewrite (clamp_low _ (x - w)) by lra. rewrite (clamp_low _ x) by lra. rewrite (clamp_mid _ (x + w)) by lra.
+    replace (x + w + (- w + S)) with (x + S) by ring.
+    unfold S, w, R. rewrite !mh_path_xpS by (fold R; lra). rewrite mh_path_0.
+    fold R. rewrite Hpot. rmax_lra.
+  - intros d Hd. rewrite Eplus3.
+    rewrite (clamp_low _ (x - w)) by lra. rewrite (clamp_low _ x) by lra. rewrite mh_path_0.
+    destruct (Rle_lt_dec d (x + w)) as [Hdw|Hdw].
+    + rewrite (clamp_high _ (x + w)) by lra.
+      assert (mh_path m x q d <= mh_pot m (q + x * x)).
+      { unfold mh_path. apply mh_pot_le_in; [assumption | nra | nra | fold R; nra]. }
+      rmax_lra.
+    + rewrite (clamp_mid _ (x + w)) by lra.
+      unfold w, R. rewrite mh_path_xpw by (fold R; lra). fold R.
+      assert (mh_path m x q d < mh_pot m R + dE).
+      { unfold mh_path. apply V. nra. }
+      rmax_lra.
+Qed.
+
+Lemma sq_bound (t w : R) : - w <= t <= w -> t * t <= w * w.
+Proof. intros. assert (0 <= (w - t) * (w + t)) by (apply Rmult_le_pos; lra). lra. Qed.
+Lemma sq_bound_ge (t w : R) : 0 <= w -> w <= t \/ t <= - w -> w * w <= t * t.
+Proof. intros Hw [H|H]; nra. Qed.
+
+(** case 3: behind the closest approach, inside the minimum sphere *)
+Lemma mh_case_behind_inside (m : mexhat) (dE x q : R) :
+  mh_wf m -> 0 < q -> 0 < dE -> 0 < x -> q + x * x < mh_r0sq m ->
+  dE <> mh_pot m q - mh_pot m (q + x * x) ->
+  match mh_behind_inside m (mh_pot m (q + x * x)) dE x q with
+  | Some d => 0 < d /\ Eplus (mh_path m x q) (breaks_mexhat x q (mh_r0 m)) d = dE
+  | None => forall d, 0 <= d -> Eplus (mh_path m x q) (breaks_mexhat x q (mh_r0 m)) d < dE
+  end.
+Proof.
+  intros Hwf Hq HdE Hx Hin Hne.
+  assert (HqR : q < mh_r0sq m) by nra.
+  rewrite (breaks_inside m x q Hwf HqR).
+  destruct (mh_BI_val m dE x q Hwf ltac:(lra) Hq ltac:(lra) HdE) as [Va Vb].
+  set (R := mh_r0sq m) in *. set (w := sqrt (R - q)) in *.
+  assert (Hww : w * w = R - q) by (apply sqrt_sqrt; lra).
+  assert (Hw : x < w) by (rewrite <- (sqrt_square x) by lra; apply sqrt_lt_sq; nra).
+  set (U0 := mh_pot m (q + x * x)) in *.
+  assert (HUq : U0 <= mh_pot m q) by (apply mh_pot_le_in; [assumption | lra | nra | fold R; lra]).
+  assert (HUm : mh_pot m R <= mh_pot m q) by (apply mh_pot_le_in; [assumption | lra | lra | fold R; lra]).
+  destruct (Rlt_le_dec dE (mh_pot m q - U0)) as [Hc|Hc].
+  - destruct (Va Hc) as (rn & -> & Hlo & Hhi & Hpot).
+    assert (HS0 : 0 < sqrt (rn * rn - q)) by (apply sqrt_lt_R0; lra).
+    assert (HSx : sqrt (rn * rn - q) < x) by (apply sqrt_lt_pos; lra).
+    set (S := sqrt (rn * rn - q)) in *.
+    split; [lra|]. rewrite Eplus3.
+    rewrite (clamp_low _ (x - w)) by lra. rewrite (clamp_high _ x) by lra. rewrite (clamp_high _ (x + w)) by lra.
+    unfold S. rewrite mh_path_xmS by lra. rewrite mh_path_0. fold U0. rewrite Hpot. rmax_lra.
+  - assert (Hgt : mh_pot m q - U0 < dE) by lra.
+    rewrite (Vb Hc).
+    pose proof (mh_FI_full m (dE - (mh_pot m q - U0)) 0 q Hwf ltac:(fold R; lra) ltac:(lra) ltac:(lra)) as V.
+    cbv zeta in V. fold R in V. fold w in V.
+    destruct (mh_front_inside m (dE - (mh_pot m q - U0)) 0 q) as [d'|]; simpl.
+    + destruct V as (rn & -> & Hlt & Hpot).
+      assert (HS : w < sqrt (rn * rn - q)) by (apply sqrt_lt_sq; lra).
+      set (S := sqrt (rn * rn - q)) in *.
+      split; [lra|]. rewrite Eplus3.
+      rewrite (clamp_low _ (x - w)) by lra. rewrite (clamp_mid _ x) by lra. rewrite (clamp_mid _ (x + w)) by lra.
+      replace (x + (0 + w + (- w + S))) with (x + S) by ring.
+      unfold S, w, R. rewrite !mh_path_xpS by (fold R; lra). rewrite mh_path_0, mh_path_x.
+      fold R. fold U0. rewrite Hpot. rmax_lra.
+    + intros d Hd. rewrite Eplus3.
+      rewrite (clamp_low _ (x - w)) by lra. rewrite mh_path_0. fold U0.
+      assert (Hinside : forall s, x - w <= s <= x + w -> mh_path m x q s <= mh_pot m q).
+      { intros s Hs. unfold mh_path. pose proof (sq_bound (x - s) w ltac:(lra)).
+        pose proof (Rle_0_sqr (x - s)) as Sq. unfold Rsqr in Sq.
+        apply mh_pot_le_in; [assumption | lra | lra | fold R; lra]. }
+      destruct (Rle_lt_dec d x) as [Hdx|Hdx].
+      * rewrite (clamp_high _ x) by lra. rewrite (clamp_high _ (x + w)) by lra.
+        pose proof (Hinside d ltac:(lra)). rmax_lra.
+      * rewrite (clamp_mid _ x) by lra. rewrite mh_path_x.
+        destruct (Rle_lt_dec d (x + w)) as [Hdw|Hdw].
+        -- rewrite (clamp_high _ (x + w)) by lra. pose proof (Hinside d ltac:(lra)). rmax_lra.
+        -- rewrite (clamp_mid _ (x + w)) by lra.
+           unfold w, R. rewrite mh_path_xpw by (fold R; lra). fold R.
+           assert (mh_path m x q d < mh_pot m R + (dE - (mh_pot m q - U0))).
+           { unfold mh_path. apply V. nra. }
+           rmax_lra.
+Qed.
+
+(** case 4a: behind the closest approach, passing by the minimum sphere (rho > r0) *)
+Lemma mh_case_behind_passing (m : mexhat) (dE x q : R) :
+  mh_wf m -> 0 < q -> 0 < dE -> 0 < x -> mh_r0sq m < q ->
+  match mh_behind_outside m dE x q with
+  | Some d => 0 < d /\ Eplus (mh_path m x q) (breaks_mexhat x q (mh_r0 m)) d = dE
+  | None => forall d, 0 <= d -> Eplus (mh_path m x q) (breaks_mexhat x q (mh_r0 m)) d < dE
+  end.
+Proof.
+  intros Hwf Hq HdE Hx Hout.
+  destruct (mh_BO_val m dE x q) as [_ Vb]. rewrite (Vb Hout).
+  rewrite (breaks_outside m x q Hwf ltac:(lra)).
+  pose proof (mh_FO_val m dE 0 q Hwf ltac:(lra) ltac:(lra) HdE ltac:(lra)) as V.
+  replace (q + 0 * 0) with q in * by ring.
+  set (R := mh_r0sq m) in *.
+  assert (Hdec : forall s, 0 <= s <= x -> mh_path m x q s <= mh_pot m (q + x * x)).
+  { intros s Hs. unfold mh_path. pose proof (sq_bound (x - s) x ltac:(lra)).
+    pose proof (Rle_0_sqr (x - s)) as Sq. unfold Rsqr in Sq.
+    apply mh_pot_le_out; [assumption | fold R; lra | lra]. }
+  destruct (mh_front_outside m (mh_pot m q) dE 0 q) as [d'|]; simpl.
+  - destruct V as (rn & -> & Hlt & Hpot).
+    assert (HS : 0 < sqrt (rn * rn - q)) by (apply sqrt_lt_R0; lra).
+    set (S := sqrt (rn * rn - q)) in *.
+    split; [lra|]. rewrite Eplus1. rewrite (clamp_mid _ x) by lra.
+    replace (x + (0 + S)) with (x + S) by ring.
+    unfold S. rewrite mh_path_xpS by lra. rewrite mh_path_0, mh_path_x. rewrite Hpot.
+    pose proof (Hdec x ltac:(lra)) as Hx'. rewrite mh_path_x in Hx'. rmax_lra.
+  - intros d Hd. rewrite Eplus1. rewrite mh_path_0.
+    destruct (Rle_lt_dec d x) as [Hdx|Hdx].
+    + rewrite (clamp_high _ x) by lra. pose proof (Hdec d ltac:(lra)). rmax_lra.
+    + rewrite (clamp_mid _ x) by lra. rewrite mh_path_x.
+      pose proof (Hdec x ltac:(lra)) as Hx'. rewrite mh_path_x in Hx'.
+      assert (mh_path m x q d < mh_pot m q + dE).
+      { unfold mh_path. apply V. pose proof (Rle_0_sqr (x - d)) as Sq. unfold Rsqr in Sq. fold R. lra. }
+      rmax_lra.
+Qed.
+
+(** case 4b: behind the closest approach, outside the minimum sphere, entering it (rho <= r0) *)
+Lemma mh_case_behind_entering (m : mexhat) (dE x q : R) :
+  mh_wf m -> 0 < q -> 0 < dE -> 0 < x -> mh_r0sq m <= q + x * x -> q <= mh_r0sq m ->
+  dE <> mh_pot m q - mh_pot m (mh_r0sq m) ->
+  match mh_behind_outside m dE x q with
+  | Some d => 0 < d /\ Eplus (mh_path m x q) (breaks_mexhat x q (mh_r0 m)) d = dE
+  | None => forall d, 0 <= d -> Eplus (mh_path m x q) (breaks_mexhat x q (mh_r0 m)) d < dE
+  end.
+Proof.
+  intros Hwf Hq HdE Hx Hout HqR Hne.
+  destruct (mh_BO_val m dE x q) as [Va _]. rewrite (Va HqR). clear Va.
+  set (R := mh_r0sq m) in *. set (w := sqrt (R - q)) in *.
+  assert (Hww : w * w = R - q) by (apply sqrt_sqrt; lra).
+  assert (Hw0 : 0 <= w) by apply sqrt_pos.
+  assert (Hwx : w <= x) by (apply sqrt_le_pos; lra).
+  assert (EwR : q + w * w = R) by lra.
+  destruct (mh_BI_val m dE w q Hwf Hw0 Hq ltac:(fold R; lra) HdE) as [Va Vb].
+  rewrite EwR in *.
+  assert (HUm0 : mh_pot m R <= mh_pot m (q + x * x)) by (apply mh_pot_le_out; [assumption | fold R; lra | lra]).
+  assert (HUmq : mh_pot m R <= mh_pot m q) by (apply mh_pot_le_in; [assumption | lra | lra | fold R; lra]).
+  assert (Hdec : forall s, 0 <= s <= x - w -> mh_path m x q s <= mh_pot m (q + x * x)).
+  { intros s Hs. unfold mh_path. pose proof (sq_bound (x - s) x ltac:(lra)).
+    pose proof (sq_bound_ge (x - s) w Hw0 ltac:(left; lra)).
+    apply mh_pot_le_out; [assumption | fold R; lra | lra]. }
+  assert (Hinside : forall s, x - w <= s <= x + w -> mh_path m x q s <= mh_pot m q).
+  { intros s Hs. unfold mh_path. pose proof (sq_bound (x - s) w ltac:(lra)).
+    pose proof (Rle_0_sqr (x - s)) as Sq. unfold Rsqr in Sq.
+    apply mh_pot_le_in; [assumption | lra | lra | fold R; lra]. }
+  destruct (Rlt_le_dec dE (mh_pot m q - mh_pot m R)) as [Hc|Hc].
+  - (* stops while climbing the inner barrier *)
+    destruct (Va Hc) as (rn & -> & Hlo & Hhi & Hpot). simpl.
+    assert (HqltR : q < R) by lra.
+    assert (HS0 : 0 < sqrt (rn * rn - q)) by (apply sqrt_lt_R0; lra).
+    assert (HSw : sqrt (rn * rn - q) < w) by (apply sqrt_lt_pos; lra).
+    set (S := sqrt (rn * rn - q)) in *.
+    split; [lra|]. rewrite (breaks_inside m x q Hwf HqltR). fold R. fold w. rewrite Eplus3.
+    rewrite (clamp_mid _ (x - w)) by lra. rewrite (clamp_high _ x) by lra. rewrite (clamp_high _ (x + w)) by lra.
+    replace (x - w + (w - S)) with (x - S) by ring.
+    unfold S, w, R. rewrite !mh_path_xmS by (fold R; lra). rewrite mh_path_0. fold R. rewrite Hpot. rmax_lra.
+  - assert (Hgt : mh_pot m q - mh_pot m R < dE) by (fold R in Hne; lra).
+    rewrite (Vb Hc). clear Va Vb.
+    pose proof (mh_FI_full m (dE - (mh_pot m q - mh_pot m R)) 0 q Hwf ltac:(fold R; lra) ltac:(lra) ltac:(lra)) as V.
+    cbv zeta in V. fold R in V. fold w in V.
+    destruct (Rle_lt_or_eq_dec q R HqR) as [HqltR|Heq].
+    + (* rho < r0: three break points *)
+      rewrite (breaks_inside m x q Hwf HqltR). fold R. fold w.
+      assert (Hwpos : 0 < w) by (apply sqrt_lt_R0; lra).
+      destruct (mh_front_inside m (dE - (mh_pot m q - mh_pot m R)) 0 q) as [d'|]; simpl.
+      * destruct V as (rn & -> & Hlt & Hpot).
+        assert (HS : w < sqrt (rn * rn - q)) by (apply sqrt_lt_sq; lra).
+        set (S := sqrt (rn * rn - q)) in *.
+        split; [lra|]. rewrite Eplus3.
+        replace (x - w + (w + (0 + w + (- w + S)))) with (x + S) by ring.
+        rewrite (clamp_mid _ (x - w)) by lra. rewrite (clamp_mid _ x) by lra. rewrite (clamp_mid _ (x + w)) by lra.
+        unfold S, w, R. rewrite !mh_path_xpS by (fold R; lra). rewrite mh_path_xmw by (fold R; lra).
+        rewrite mh_path_0, mh_path_x. fold R. rewrite Hpot. rmax_lra.
+      * intros d Hd. rewrite Eplus3. rewrite mh_path_0.
+        destruct (Rle_lt_dec d (x - w)) as [H1|H1].
+        { rewrite (clamp_high _ (x - w)) by lra. rewrite (clamp_high _ x) by lra. rewrite (clamp_high _ (x + w)) by lra.
+          pose proof (Hdec d ltac:(lra)). rmax_lra. }
+        rewrite (clamp_mid _ (x - w)) by lra.
+        unfold w at 1 2, R at 1 2. rewrite mh_path_xmw by (fold R; lra). fold R. fold w.
+        destruct (Rle_lt_dec d x) as [H2|H2].
+        { rewrite (clamp_high _ x) by lra. rewrite (clamp_high _ (x + w)) by lra.
+          pose proof (Hinside d ltac:(lra)). rmax_lra. }
+        rewrite (clamp_mid _ x) by lra. rewrite mh_path_x.
+        destruct (Rle_lt_dec d (x + w)) as [H3|H3].
+        { rewrite (clamp_high _ (x + w)) by lra. pose proof (Hinside d ltac:(lra)). rmax_lra. }
+        rewrite (clamp_mid _ (x + w)) by lra.
+        unfold w at 1 2, R at 1 2. rewrite mh_path_xpw by (fold R; lra). fold R. fold w.
+        assert (mh_path m x q d < mh_pot m R + (dE - (mh_pot m q - mh_pot m R))).
+        { unfold mh_path. apply V. pose proof (sq_bound_ge (x - d) w Hw0 ltac:(right; lra)). lra. }
+        rmax_lra.
+    + (* rho = r0: the sphere is only touched *)
+      rewrite (breaks_outside m x q Hwf ltac:(fold R; lra)).
+      assert (Ew : w = 0) by (unfold w; rewrite Heq; replace (R - R) with 0 by ring; apply sqrt_0).
+      assert (EU : mh_pot m q = mh_pot m R) by (rewrite Heq; reflexivity).
+      destruct (mh_front_inside m (dE - (mh_pot m q - mh_pot m R)) 0 q) as [d'|]; simpl.
+      * destruct V as (rn & -> & Hlt & Hpot).
+        assert (HS : 0 < sqrt (rn * rn - q)) by (apply sqrt_lt_R0; lra).
+        set (S := sqrt (rn * rn - q)) in *.
+        split; [lra|]. rewrite Eplus1.
+        replace (x - w + (w + (0 + w + (- w + S)))) with (x + S) by ring.
+        rewrite (clamp_mid _ x) by lra.
+        unfold S. rewrite mh_path_xpS by lra. rewrite mh_path_0, mh_path_x. rewrite Hpot. rmax_lra.
+      * intros d Hd. rewrite Eplus1. rewrite mh_path_0.
+        destruct (Rle_lt_dec d x) as [H2|H2].
+        { rewrite (clamp_high _ x) by lra. pose proof (Hdec d ltac:(lra)). rmax_lra. }
+        rewrite (clamp_mid _ x) by lra. rewrite mh_path_x.
+        assert (mh_path m x q d < mh_pot m R + (dE - (mh_pot m q - mh_pot m R))).
+        { unfold mh_path. apply V. pose proof (Rle_0_sqr (x - d)) as Sq. unfold Rsqr in Sq. lra. }
+        rmax_lra.
+Qed.
+
+(** *** all cases: the code's standard_velocity_displacement of a Mexican hat inverts the cumulative uphill energy,
+    and returns infinity exactly when the budget is never reached.  The budget must not be exactly equal to the inner
+    barrier (a single value; the branch boundary "can / cannot climb", cf. known finding F3e). *)
+Theorem mh_displacement_correct (m : mexhat) (dE x q : R) :
+  mh_wf m -> 0 < q -> 0 < dE ->
+  (0 < x -> q <= mh_r0sq m -> dE <> mh_pot m q - mh_pot m (Rmin (q + x * x) (mh_r0sq m))) ->
+  match mh_displacement m dE x q with
+  | Some d => 0 < d /\ Eplus (mh_path m x q) (breaks_mexhat x q (mh_r0 m)) d = dE
+  | None => forall d, 0 <= d -> Eplus (mh_path m x q) (breaks_mexhat x q (mh_r0 m)) d < dE
+  end.
+Proof.
+  intros Hwf Hq HdE Hne.
+  pose proof Hwf as (Hr0 & Esq & _).
+  assert (HA : 0 <= q + x * x) by nra.
+  unfold mh_displacement.
+  destruct (Rle_dec (mh_r0 m) (sqrt (q + x * x))) as [Ho|Hi].
+  - apply (r0_le_sqrt_iff _ _ Hr0 HA) in Ho. rewrite <- Esq in Ho.
+    destruct (Rle_dec x 0) as [Hx|Hx].
+    + apply mh_case_front_outside; assumption.
+    + apply Rnot_le_lt in Hx.
+      destruct (Rle_lt_dec q (mh_r0sq m)) as [HqR|HqR].
+      * apply mh_case_behind_entering; try assumption.
+        specialize (Hne Hx HqR). rewrite Rmin_right in Hne by exact Ho. exact Hne.
+      * apply mh_case_behind_passing; assumption.
+  - assert (Hin : q + x * x < mh_r0sq m).
+    { apply Rnot_le_lt in Hi. destruct (Rlt_le_dec (q + x * x) (mh_r0sq m)) as [L|L]; [exact L|]. exfalso.
+      rewrite Esq in L. apply (r0_le_sqrt_iff _ _ Hr0 HA) in L. lra. }
+    destruct (Rle_dec x 0) as [Hx|Hx].
+    + apply mh_case_front_inside; assumption.
+    + apply Rnot_le_lt in Hx.
+      apply mh_case_behind_inside; try assumption.
+      assert (HqR : q <= mh_r0sq m) by nra.
+      specialize (Hne Hx HqR). rewrite Rmin_left in Hne by lra. exact Hne.
+Qed.
+
+Corollary mh_displacement_inverts (m : mexhat) (dE x q d : R) :
+  mh_wf m -> 0 < q -> 0 < dE ->
+  (0 < x -> q <= mh_r0sq m -> dE <> mh_pot m q - mh_pot m (Rmin (q + x * x) (mh_r0sq m))) ->
+  mh_displacement m dE x q = Some d ->
+  0 < d /\ Eplus (mh_path m x q) (breaks_mexhat x q (mh_r0 m)) d = dE.
+Proof.
+  intros Hwf Hq HdE Hne E. pose proof (mh_displacement_correct m dE x q Hwf Hq HdE Hne) as H.
+  rewrite E in H. exact H.
+Qed.
+
+Corollary mh_infinite_iff_never_reached (m : mexhat) (dE x q : R) :
+  mh_wf m -> 0 < q -> 0 < dE ->
+  (0 < x -> q <= mh_r0sq m -> dE <> mh_pot m q - mh_pot m (Rmin (q + x * x) (mh_r0sq m))) ->
+  (mh_displacement m dE x q = None <->
+   forall d, 0 <= d -> Eplus (mh_path m x q) (breaks_mexhat x q (mh_r0 m)) d < dE).
+Proof.
+  intros Hwf Hq HdE Hne. pose proof (mh_displacement_correct m dE x q Hwf Hq HdE Hne) as H.
+  destruct (mh_displacement m dE x q) as [d|]; split; intros H'; try assumption; try reflexivity; try discriminate.
+  exfalso. destruct H as [Hd HE]. specialize (H' d (Rlt_le _ _ Hd)). lra.
+Qed.
+
+(** *** instance: displaced even power potential *)
+Lemma pow_even_opp (t : R) (p : nat) : Nat.Even p -> (- t) ^ p = t ^ p.
+Proof. intros [n ->]. rewrite !pow_Rsqr, <- Rsqr_neg. reflexivity. Qed.
+
+Lemma dep_mexhat_wf (k r0 : R) (p : nat) :
+  0 < k -> 0 < r0 -> (0 < p)%nat -> Nat.Even p -> mh_wf (dep_mexhat k r0 p).
+Proof.
+  intros Hk Hr0 Hp Hev. unfold mh_wf; simpl.
+  assert (Hz : dep_pot k r0 p (r0 * r0) = 0).
+  { unfold dep_pot. rewrite sqrt_square by lra. replace (r0 - r0) with 0 by ring. rewrite pow_i by exact Hp. ring. }
+  assert (Hin : forall a b, 0 < a -> a < b -> b <= r0 * r0 -> dep_pot k r0 p b < dep_pot k r0 p a).
+  { intros a b Ha Hab Hb. unfold dep_pot.
+    assert (sqrt a < sqrt b) by (apply sqrt_lt_sq; lra).
+    assert (sqrt b <= r0) by (apply sqrt_le_pos; lra).
+    apply Rmult_lt_compat_l; [exact Hk|].
+    rewrite <- (pow_even_opp (sqrt b - r0) p Hev), <- (pow_even_opp (sqrt a - r0) p Hev).
+    apply pow_lt_strict; [lra | exact Hp]. }
+  split; [exact Hr0|]. split; [reflexivity|]. split; [|split; [exact Hin|]; split; [|split]].
+  - intros a b Ha Hab. apply dep_pot_increasing_outside; try assumption; lra.
+  - intros U rn HU E. rewrite Hz in HU.
+    destruct (dep_invert_outside k r0 p U rn Hk ltac:(lra) Hp HU E) as [Hgt Hpot].
+    split; [lra|]. split; [nra | exact Hpot].
+  - intros U _ HN. unfold dep_inv_out in HN. discriminate.
+  - intros U qq Hqq Hqq' HU HUq. rewrite Hz in HU.
+    assert (Hsq : 0 < sqrt qq <= r0) by (split; [apply sqrt_lt_R0; lra | apply sqrt_le_pos; lra]).
+    assert (Hmax : dep_pot k r0 p qq <= k * r0 ^ p).
+    { unfold dep_pot. apply Rmult_le_compat_l; [lra|].
+      rewrite <- (pow_even_opp (sqrt qq - r0) p Hev). apply pow_incr. lra. }
+    destruct (dep_invert_inside k r0 p U Hk Hp Hev HU ltac:(lra) Hr0) as [[Hrn0 Hrn1] Hpot].
+    set (rn := dep_inv_in k r0 p U) in *.
+    assert (Hpos : 0 < rn).
+    { destruct (Rle_lt_or_eq_dec 0 rn Hrn0) as [L|Z]; [exact L|]. exfalso.
+      rewrite <- Z in Hpot. unfold dep_pot in Hpot. replace (0 * 0) with 0 in Hpot by ring.
+      rewrite sqrt_0 in Hpot. replace (0 - r0) with (- r0) in Hpot by ring.
+      rewrite (pow_even_opp r0 p Hev) in Hpot.
+      assert (dep_pot k r0 p qq < k * r0 ^ p); [|lra].
+      unfold dep_pot. apply Rmult_lt_compat_l; [lra|].
+      rewrite <- (pow_even_opp (sqrt qq - r0) p Hev). apply pow_lt_strict; [lra | exact Hp]. }
+    split; [exact Hpos|]. split; [nra | exact Hpot].
+Qed.
+
+(** *** instance: Lennard-Jones potential *)
+Lemma lj_pot_T (k sigma a : R) :
+  0 < a -> lj_pot k sigma a = k * (sigma ^ 6 / a ^ 3 * (sigma ^ 6 / a ^ 3) - sigma ^ 6 / a ^ 3).
+Proof.
+  intros Ha. unfold lj_pot, ip_potential.
+  replace (6 / 2) with (INR 3) by (simpl; field).
+  replace (12 / 2) with (INR 6) by (simpl; field).
+  rewrite !Rpower_pow by exact Ha. field. lra.
+Qed.
+
+Lemma cube_lt (a b : R) : 0 <= a -> a < b -> a ^ 3 < b ^ 3.
+Proof. intros. apply pow_lt_strict; [lra | lia]. Qed.
+Lemma cube_le_inv (a b : R) : 0 <= a -> 0 <= b -> a ^ 3 <= b ^ 3 -> a <= b.
+Proof. intros Ha Hb H. destruct (Rle_lt_dec a b) as [L|L]; [exact L|]. pose proof (cube_lt b a Hb L). lra. Qed.
+
+Lemma lj_r0sq_cube (sigma : R) : (lj_r0 sigma * lj_r0 sigma) ^ 3 = 2 * sigma ^ 6.
+Proof.
+  unfold lj_r0.
+  assert (E : Rpower 2 (1 / 6) ^ 6 = 2).
+  { replace (1 / 6) with (1 / INR 6) by (simpl; field). apply Rpower_root_pow; [lra | lia]. }
+  replace ((sigma * Rpower 2 (1 / 6) * (sigma * Rpower 2 (1 / 6))) ^ 3) with (sigma ^ 6 * Rpower 2 (1 / 6) ^ 6) by ring.
+  rewrite E. ring.
+Qed.
+
+(** with t = (sigma/rn)^6:  rn^6 = sigma^6 / t *)
+Lemma lj_rn_cube (sigma t : R) :
+  0 < sigma -> 0 < t ->
+  let rn := sigma / Rpower t (1 / 6) in 0 < rn /\ (rn * rn) ^ 3 = sigma ^ 6 / t.
+Proof.
+  intros Hs Ht rn. pose proof (Rpower_pos t (1 / 6)) as Hu.
+  assert (Hu6 : Rpower t (1 / 6) ^ 6 = t).
+  { replace (1 / 6) with (1 / INR 6) by (simpl; field). apply Rpower_root_pow; [exact Ht | lia]. }
+  split; [apply Rdiv_lt_0_compat; assumption|].
+  replace ((rn * rn) ^ 3) with (rn ^ 6) by ring. unfold rn. rewrite <- Hu6 at 2. field. lra.
+Qed.
+
+Lemma lj_T_half (sigma a : R) :
+  0 < sigma -> 0 < a ->
+  (lj_r0 sigma * lj_r0 sigma <= a -> sigma ^ 6 / a ^ 3 <= 1 / 2) /\
+  (a <= lj_r0 sigma * lj_r0 sigma -> 1 / 2 <= sigma ^ 6 / a ^ 3).
+Proof.
+  intros Hs Ha.
+  assert (Hr : 0 < lj_r0 sigma * lj_r0 sigma).
+  { unfold lj_r0. pose proof (Rpower_pos 2 (1 / 6)). apply Rmult_lt_0_compat; apply Rmult_lt_0_compat; assumption. }
+  assert (Hs6 : 0 < sigma ^ 6) by (apply pow_lt; exact Hs).
+  assert (Ha3 : 0 < a ^ 3) by (apply pow_lt; exact Ha).
+  pose proof (lj_r0sq_cube sigma) as Ec.
+  split; intros H.
+  - assert (2 * sigma ^ 6 <= a ^ 3).
+    { rewrite <- Ec. destruct H as [H| ->]; [left; apply cube_lt; lra | right; reflexivity]. }
+    apply (Rmult_le_reg_r (a ^ 3)); [exact Ha3|]. replace (sigma ^ 6 / a ^ 3 * a ^ 3) with (sigma ^ 6) by (field; lra). lra.
+  - assert (a ^ 3 <= 2 * sigma ^ 6).
+    { rewrite <- Ec. destruct H as [H| ->]; [left; apply cube_lt; lra | right; reflexivity]. }
+    apply (Rmult_le_reg_r (a ^ 3)); [exact Ha3|]. replace (sigma ^ 6 / a ^ 3 * a ^ 3) with (sigma ^ 6) by (field; lra). lra.
+Qed.
+
+Lemma lj_T_antitone (sigma a b : R) : 0 < sigma -> 0 < a -> a < b -> sigma ^ 6 / b ^ 3 < sigma ^ 6 / a ^ 3.
+Proof.
+  intros Hs Ha Hab.
+  assert (Hs6 : 0 < sigma ^ 6) by (apply pow_lt; exact Hs).
+  assert (Ha3 : 0 < a ^ 3) by (apply pow_lt; exact Ha).
+  pose proof (cube_lt a b ltac:(lra) Hab).
+  unfold Rdiv. apply Rmult_lt_compat_l; [exact Hs6|]. apply Rinv_lt_contravar; [nra | assumption].
+Qed.
+
+Lemma lj_mexhat_wf (k sigma : R) : 0 < k -> 0 < sigma -> mh_wf (lj_mexhat k sigma).
+Proof.
+  intros Hk Hs. unfold mh_wf; simpl.
+  assert (Hr0 : 0 < lj_r0 sigma) by (unfold lj_r0; apply Rmult_lt_0_compat; [exact Hs | apply Rpower_pos]).
+  set (R := lj_r0 sigma * lj_r0 sigma).
+  assert (HR : 0 < R) by (unfold R; nra).
+  assert (Hs6 : 0 < sigma ^ 6) by (apply pow_lt; exact Hs).
+  assert (HpotR : lj_pot k sigma R = - k / 4).
+  { rewrite lj_pot_T by exact HR. unfold R. rewrite lj_r0sq_cube. field. lra. }
+  assert (Hout : forall a b, R <= a -> a < b -> lj_pot k sigma a < lj_pot k sigma b).
+  { intros a b Ha Hab. rewrite !lj_pot_T by lra.
+    pose proof (lj_T_antitone sigma a b Hs ltac:(lra) Hab) as HT.
+    destruct (lj_T_half sigma a Hs ltac:(lra)) as [Ha2 _]. specialize (Ha2 Ha).
+    assert (0 < sigma ^ 6 / b ^ 3) by (apply Rdiv_lt_0_compat; [exact Hs6 | apply pow_lt; lra]).
+    set (Ta := sigma ^ 6 / a ^ 3) in *. set (Tb := sigma ^ 6 / b ^ 3) in *.
+    assert ((Ta - Tb) * (Ta + Tb - 1) < 0) by nra. nra. }
+  assert (Hin : forall a b, 0 < a -> a < b -> b <= R -> lj_pot k sigma b < lj_pot k sigma a).
+  { intros a b Ha Hab Hb. rewrite !lj_pot_T by lra.
+    pose proof (lj_T_antitone sigma a b Hs Ha Hab) as HT.
+    destruct (lj_T_half sigma b Hs ltac:(lra)) as [_ Hb2]. specialize (Hb2 Hb).
+    set (Ta := sigma ^ 6 / a ^ 3) in *. set (Tb := sigma ^ 6 / b ^ 3) in *.
+    assert (0 < (Ta - Tb) * (Ta + Tb - 1)) by nra. nra. }
+  assert (Hrad : forall U, - k / 4 <= U -> 0 <= 1 + 4 * U / k).
+  { intros U HU. assert (4 * U / k >= -1); [|lra]. unfold Rdiv.
+    assert (0 < / k) by (apply Rinv_0_lt_compat; exact Hk).
+    replace (-1) with (4 * (- k / 4) * / k) by (field; lra). nra. }
+  split; [exact Hr0|]. split; [reflexivity|]. split; [exact Hout|]. split; [exact Hin|]. split; [|split].
+  - intros U rn HU E. fold R in HU. rewrite HpotR in HU.
+    destruct (lj_invert_outside k sigma U rn Hk Hs ltac:(lra) E) as [Hneg Hpot].
+    unfold lj_inv_out in E. destruct (Rle_dec 0 U); [discriminate|]. injection E as E.
+    pose proof (Hrad U ltac:(lra)) as Hr. pose proof (sqrt_pos (1 + 4 * U / k)) as Hs0.
+    assert (Hs1 : sqrt (1 + 4 * U / k) < 1).
+    { rewrite <- sqrt_1 at 2. apply sqrt_lt_sq; [exact Hr|].
+      assert (4 * U / k < 0); [|lra]. unfold Rdiv. assert (0 < / k) by (apply Rinv_0_lt_compat; exact Hk). nra. }
+    set (t := (1 - sqrt (1 + 4 * U / k)) / 2) in *.
+    assert (Ht : 0 < t <= 1 / 2) by (unfold t; lra).
+    destruct (lj_rn_cube sigma t Hs ltac:(lra)) as [Hrn Hc]. rewrite E in Hrn, Hc.
+    split; [lra|]. split; [|exact Hpot].
+    apply cube_le_inv; [unfold R in *; lra | nra |]. unfold R. rewrite lj_r0sq_cube, Hc.
+    apply (Rmult_le_reg_r t); [lra|]. replace (sigma ^ 6 / t * t) with (sigma ^ 6) by (field; lra). nra.
+  - intros U HU EN a Ha. unfold lj_inv_out in EN. destruct (Rle_dec 0 U) as [HU0|]; [|discriminate].
+    fold R in Ha. rewrite lj_pot_T by lra.
+    destruct (lj_T_half sigma a Hs ltac:(lra)) as [Ha2 _]. specialize (Ha2 Ha).
+    assert (0 < sigma ^ 6 / a ^ 3) by (apply Rdiv_lt_0_compat; [exact Hs6 | apply pow_lt; lra]).
+    set (Ta := sigma ^ 6 / a ^ 3) in *. assert (Ta * Ta - Ta < 0) by nra. nra.
+  - intros U qq Hqq Hqq' HU HUq. fold R in HU, Hqq'. rewrite HpotR in HU.
+    pose proof (lj_invert_inside k sigma U Hk Hs ltac:(lra)) as Hpot. cbv zeta in Hpot.
+    pose proof (Hrad U ltac:(lra)) as Hr. pose proof (sqrt_pos (1 + 4 * U / k)) as Hs0.
+    unfold lj_inv_in in *.
+    set (t := (1 + sqrt (1 + 4 * U / k)) / 2) in *.
+    assert (Ht : 1 / 2 <= t) by (unfold t; lra).
+    destruct (lj_rn_cube sigma t Hs ltac:(lra)) as [Hrn Hc].
+    split; [exact Hrn|]. split; [|exact Hpot].
+    apply cube_le_inv; [nra | unfold R in *; lra |]. unfold R. rewrite lj_r0sq_cube, Hc.
+    apply (Rmult_le_reg_r t); [lra|]. replace (sigma ^ 6 / t * t) with (sigma ^ 6) by (field; lra). nra.
+Qed.
+
+(** *** the two shipped Mexican hats, with the division by the speed *)
+Theorem lj_displacement_correct (k sigma dE x q : R) :
+  0 < k -> 0 < sigma -> 0 < q -> 0 < dE ->
+  (0 < x -> q <= lj_r0 sigma * lj_r0 sigma ->
+   dE <> lj_pot k sigma q - lj_pot k sigma (Rmin (q + x * x) (lj_r0 sigma * lj_r0 sigma))) ->
+  match lj_displacement k sigma dE x q with
+  | Some d => 0 < d /\
+      Eplus (fun s => lj_pot k sigma (q + (x - s) * (x - s))) (breaks_mexhat x q (lj_r0 sigma)) d = dE
+  | None => forall d, 0 <= d ->
+      Eplus (fun s => lj_pot k sigma (q + (x - s) * (x - s))) (breaks_mexhat x q (lj_r0 sigma)) d < dE
+  end.
+Proof.
+  intros Hk Hs Hq HdE Hne.
+  exact (mh_displacement_correct (lj_mexhat k sigma) dE x q (lj_mexhat_wf k sigma Hk Hs) Hq HdE Hne).
+Qed.
+
+Theorem dep_displacement_correct (k r0 : R) (p : nat) (dE x q : R) :
+  0 < k -> 0 < r0 -> (0 < p)%nat -> Nat.Even p -> 0 < q -> 0 < dE ->
+  (0 < x -> q <= r0 * r0 -> dE <> dep_pot k r0 p q - dep_pot k r0 p (Rmin (q + x * x) (r0 * r0))) ->
+  match dep_displacement k r0 p dE x q with
+  | Some d => 0 < d /\
+      Eplus (fun s => dep_pot k r0 p (q + (x - s) * (x - s))) (breaks_mexhat x q r0) d = dE
+  | None => forall d, 0 <= d ->
+      Eplus (fun s => dep_pot k r0 p (q + (x - s) * (x - s))) (breaks_mexhat x q r0) d < dE
+  end.
+Proof.
+  intros Hk Hr0 Hp Hev Hq HdE Hne.
+  exact (mh_displacement_correct (dep_mexhat k r0 p) dE x q (dep_mexhat_wf k r0 p Hk Hr0 Hp Hev) Hq HdE Hne).
+Qed.
+
+Lemma sv_some_inv (o : option R) (speed t : R) :
+  0 < speed -> sv_displacement o speed = Some t -> o = Some (t * speed).
+Proof.
+  intros Hv H. unfold sv_displacement, xdiv in H. destruct o as [d|]; [|discriminate].
+  injection H as <-. f_equal. field. lra.
+Qed.
+Lemma sv_none_iff (o : option R) (speed : R) : sv_displacement o speed = None <-> o = None.
+Proof. unfold sv_displacement, xdiv. destruct o; split; intros; try discriminate; reflexivity. Qed.
+
+Theorem lj_displacement_inverts (k sigma dE x q speed t : R) :
+  0 < k -> 0 < sigma -> 0 < q -> 0 < dE -> 0 < speed ->
+  (0 < x -> q <= lj_r0 sigma * lj_r0 sigma ->
+   dE <> lj_pot k sigma q - lj_pot k sigma (Rmin (q + x * x) (lj_r0 sigma * lj_r0 sigma))) ->
+  sv_displacement (lj_displacement k sigma dE x q) speed = Some t ->
+  0 < t /\
+  Eplus (fun s => lj_pot k sigma (q + (x - s) * (x - s))) (breaks_mexhat x q (lj_r0 sigma)) (t * speed) = dE.
+Proof.
+  intros Hk Hs Hq HdE Hv Hne H. apply (sv_some_inv _ _ _ Hv) in H.
+  pose proof (lj_displacement_correct k sigma dE x q Hk Hs Hq HdE Hne) as C. rewrite H in C.
+  destruct C as [Hd HE]. split; [nra | exact HE].
+Qed.
+
+Theorem lj_infinite_iff (k sigma dE x q speed : R) :
+  0 < k -> 0 < sigma -> 0 < q -> 0 < dE ->
+  (0 < x -> q <= lj_r0 sigma * lj_r0 sigma ->
+   dE <> lj_pot k sigma q - lj_pot k sigma (Rmin (q + x * x) (lj_r0 sigma * lj_r0 sigma))) ->
+  (sv_displacement (lj_displacement k sigma dE x q) speed = None <->
+   forall d, 0 <= d ->
+     Eplus (fun s => lj_pot k sigma (q + (x - s) * (x - s))) (breaks_mexhat x q (lj_r0 sigma)) d < dE).
+Proof.
+  intros Hk Hs Hq HdE Hne. rewrite sv_none_iff.
+  exact (mh_infinite_iff_never_reached (lj_mexhat k sigma) dE x q (lj_mexhat_wf k sigma Hk Hs) Hq HdE Hne).
+Qed.
+
+Theorem dep_displacement_inverts (k r0 : R) (p : nat) (dE x q speed t : R) :
+  0 < k -> 0 < r0 -> (0 < p)%nat -> Nat.Even p -> 0 < q -> 0 < dE -> 0 < speed ->
+  (0 < x -> q <= r0 * r0 -> dE <> dep_pot k r0 p q - dep_pot k r0 p (Rmin (q + x * x) (r0 * r0))) ->
+  sv_displacement (dep_displacement k r0 p dE x q) speed = Some t ->
+  0 < t /\ Eplus (fun s => dep_pot k r0 p (q + (x - s) * (x - s))) (breaks_mexhat x q r0) (t * speed) = dE.
+Proof.
+  intros Hk Hr0 Hp Hev Hq HdE Hv Hne H. apply (sv_some_inv _ _ _ Hv) in H.
+  pose proof (dep_displacement_correct k r0 p dE x q Hk Hr0 Hp Hev Hq HdE Hne) as C. rewrite H in C.
+  destruct C as [Hd HE]. split; [nra | exact HE].
+Qed.
+
+(** the displaced even power potential grows without bound: the event distance is never infinite *)
+Theorem dep_never_infinite (k r0 : R) (p : nat) (dE x q speed : R) :
+  sv_displacement (dep_displacement k r0 p dE x q) speed <> None.
+Proof.
+  rewrite sv_none_iff. unfold dep_displacement, mh_displacement, mh_behind_outside, mh_behind_inside,
+    mh_front_inside, mh_front_outside; simpl.
+  repeat match goal with |- context [if ?c then _ else _] => destruct c end; simpl; discriminate.
+Qed.
+
+(** ** C02: 1/r bounding potential of the C extension with periodic images (laps) *)
+Lemma Int_part_unique (r : R) (z : Z) : IZR z <= r < IZR z + 1 -> Int_part r = z.
+Proof.
+  intros [H1 H2]. unfold Int_part.
+  assert (E : (z + 1)%Z = up r).
+  { apply tech_up; rewrite plus_IZR; simpl; lra. }
+  rewrite <- E. lia.
+Qed.
+
+Lemma nearest_image_id (L u : R) : 0 < L -> - L / 2 <= u < L / 2 -> nearest_image L u = u.
+Proof.
+  intros HL Hu. unfold nearest_image.
+  rewrite (Int_part_unique (u / L + 1 / 2) 0).
+  - simpl. ring.
+  - simpl. assert (- 1 / 2 <= u / L < 1 / 2); [|lra].
+    split.
+    + apply (Rmult_le_reg_r L); [exact HL|]. replace (u / L * L) with u by (field; lra). lra.
+    + apply (Rmult_lt_reg_r L); [exact HL|]. replace (u / L * L) with u by (field; lra). lra.
+Qed.
+
+Lemma nearest_image_periodic (L u : R) : 0 < L -> nearest_image L (u - L) = nearest_image L u.
+Proof.
+  intros HL. unfold nearest_image.
+  set (z := Int_part (u / L + 1 / 2)).
+  assert (Hz : IZR z <= u / L + 1 / 2 < IZR z + 1).
+  { unfold z. destruct (base_Int_part (u / L + 1 / 2)) as [B1 B2]. lra. }
+  rewrite (Int_part_unique ((u - L) / L + 1 / 2) (z - 1)).
+  - rewrite minus_IZR. simpl. ring.
+  - rewrite minus_IZR. simpl. replace ((u - L) / L) with (u / L - 1) by (field; lra). lra.
+Qed.
+
+Lemma nearest_image_sq (L u : R) :
+  0 < L -> - L / 2 <= u <= L / 2 -> nearest_image L u * nearest_image L u = u * u.
+Proof.
+  intros HL [H1 H2]. destruct (Rle_lt_or_eq_dec _ _ H2) as [Hlt|Heq].
+  - rewrite nearest_image_id by lra. reflexivity.
+  - rewrite <- (nearest_image_periodic L u HL). rewrite nearest_image_id by lra. subst u. field.
+Qed.
+
+Lemma ipc_pot_sq (kc u v q : R) : u * u = v * v -> ipc_pot kc u q = ipc_pot kc v q.
+Proof. intros H. unfold ipc_pot. rewrite H. reflexivity. Qed.
+
+(** the energy along the path inside the window of the nearest image, and its period *)
+Lemma ipc_path_window (kc x q L s : R) :
+  0 < L -> x - L / 2 <= s <= x + L / 2 -> ipc_path kc x q L s = ipc_pot kc (x - s) q.
+Proof. intros HL Hs. unfold ipc_path. apply ipc_pot_sq. apply nearest_image_sq; lra. Qed.
+
+Lemma ipc_path_periodic (kc x q L s : R) : 0 < L -> ipc_path kc x q L (s + L) = ipc_path kc x q L s.
+Proof.
+  intros HL. unfold ipc_path. replace (x - (s + L)) with (x - s - L) by ring.
+  rewrite nearest_image_periodic by exact HL. reflexivity.
+Qed.
+
+(** monotonicity of kc / sqrt (u^2 + q) in |u| *)
+Lemma ipc_pot_rep_le (kc a b q : R) : 0 < kc -> 0 < q -> a * a <= b * b -> ipc_pot kc b q <= ipc_pot kc a q.
+Proof.
+  intros Hk Hq H. unfold ipc_pot.
+  assert (0 < sqrt (a * a + q)) by (apply sqrt_lt_R0; nra).
+  assert (sqrt (a * a + q) <= sqrt (b * b + q)) by (apply sqrt_le_1_alt; lra).
+  unfold Rdiv. apply Rmult_le_compat_l; [lra|]. apply Rinv_le_contravar; assumption.
+Qed.
+Lemma ipc_pot_rep_lt (kc a b q : R) : 0 < kc -> 0 < q -> a * a < b * b -> ipc_pot kc b q < ipc_pot kc a q.
+Proof.
+  intros Hk Hq H. unfold ipc_pot.
+  assert (0 < sqrt (a * a + q)) by (apply sqrt_lt_R0; nra).
+  assert (sqrt (a * a + q) < sqrt (b * b + q)) by (apply sqrt_lt_1_alt; split; nra).
+  unfold Rdiv. apply Rmult_lt_compat_l; [lra|]. apply Rinv_lt_contravar; [nra | assumption].
+Qed.
+Lemma ipc_pot_att_le (kc a b q : R) : kc < 0 -> 0 < q -> a * a <= b * b -> ipc_pot kc a q <= ipc_pot kc b q.
+Proof.
+  intros Hk Hq H. unfold ipc_pot.
+  assert (0 < sqrt (a * a + q)) by (apply sqrt_lt_R0; nra).
+  assert (sqrt (a * a + q) <= sqrt (b * b + q)) by (apply sqrt_le_1_alt; lra).
+  assert (/ sqrt (b * b + q) <= / sqrt (a * a + q)) by (apply Rinv_le_contravar; assumption).
+  unfold Rdiv. nra.
+Qed.
+Lemma ipc_pot_att_lt (kc a b q : R) : kc < 0 -> 0 < q -> a * a < b * b -> ipc_pot kc a q < ipc_pot kc b q.
+Proof.
+  intros Hk Hq H. unfold ipc_pot.
+  assert (0 < sqrt (a * a + q)) by (apply sqrt_lt_R0; nra).
+  assert (sqrt (a * a + q) < sqrt (b * b + q)) by (apply sqrt_lt_1_alt; split; nra).
+  assert (/ sqrt (b * b + q) < / sqrt (a * a + q)) by (apply Rinv_lt_contravar; [nra | assumption]).
+  unfold Rdiv. nra.
+Qed.
+
+Lemma ipc_pot_sign (kc u q : R) : 0 < q -> (0 < kc -> 0 < ipc_pot kc u q) /\ (kc < 0 -> ipc_pot kc u q < 0).
+Proof.
+  intros Hq. unfold ipc_pot.
+  assert (0 < / sqrt (u * u + q)) by (apply Rinv_0_lt_compat, sqrt_lt_R0; nra).
+  unfold Rdiv. split; intros; nra.
+Qed.
+
+(** inverting the potential: position (relative to the nearest image) at which the energy equals E *)
+Lemma ipc_invert (kc E q : R) :
+  0 < q -> 0 < kc / E -> q <= kc / E * (kc / E) ->
+  ipc_pot kc (sqrt (kc / E * (kc / E) - q)) q = E.
+Proof.
+  intros Hq Hn Hrad. unfold ipc_pot.
+  rewrite sqrt_sqrt by lra.
+  replace (kc / E * (kc / E) - q + q) with (kc / E * (kc / E)) by ring.
+  rewrite sqrt_square by lra.
+  assert (E <> 0). { intros ->. unfold Rdiv in Hn. rewrite Rinv_0, Rmult_0_r in Hn. lra. }
+  assert (kc <> 0). { intros ->. unfold Rdiv in Hn. rewrite Rmult_0_l in Hn. lra. }
+  field. split; assumption.
+Qed.
+
+(** radicand and position from energy bounds, repulsive sign *)
+Lemma ipc_position_rep (kc E q a b : R) :
+  0 < kc -> 0 < q -> 0 <= a -> a <= b ->
+  ipc_pot kc b q <= E -> E <= ipc_pot kc a q ->
+  let S := sqrt (kc / E * (kc / E) - q) in
+  q <= kc / E * (kc / E) /\ ipc_pot kc S q = E /\ a <= S <= b /\
+  (E < ipc_pot kc a q -> a < S) /\ (ipc_pot kc b q < E -> S < b).
+Proof.
+  intros Hk Hq Ha Hab HEb HEa S.
+  destruct (ipc_pot_sign kc b q Hq) as [Hpos _]. specialize (Hpos Hk).
+  assert (HE : 0 < E) by lra.
+  assert (Hn : 0 < kc / E) by (apply Rdiv_lt_0_compat; assumption).
+  assert (Hz : E <= ipc_pot kc 0 q).
+  { apply Rle_trans with (ipc_pot kc a q); [exact HEa|]. apply ipc_pot_rep_le; try assumption. nra. }
+  assert (Hrad : q <= kc / E * (kc / E)).
+  { unfold ipc_pot in Hz. replace (0 * 0 + q) with q in Hz by ring.
+    assert (Hsq : 0 < sqrt q) by (apply sqrt_lt_R0; exact Hq).
+    assert (sqrt q <= kc / E).
+    { apply (Rmult_le_reg_r E); [exact HE|]. replace (kc / E * E) with kc by (field; lra).
+      apply (Rmult_le_compat_r (sqrt q)) in Hz; [|lra].
+      replace (kc / sqrt q * sqrt q) with kc in Hz by (field; lra). lra. }
+    rewrite <- (sqrt_sqrt q) at 1 by lra. nra. }
+  pose proof (ipc_invert kc E q Hq Hn Hrad) as Hinv. fold S in Hinv.
+  assert (HS0 : 0 <= S) by apply sqrt_pos.
+  split; [exact Hrad|]. split; [exact Hinv|].
+  assert (HaS : a <= S).
+  { destruct (Rle_lt_dec a S) as [L|L]; [exact L|]. exfalso.
+    pose proof (ipc_pot_rep_lt kc S a q Hk Hq ltac:(nra)). lra. }
+  assert (HSb : S <= b).
+  { destruct (Rle_lt_dec S b) as [L|L]; [exact L|]. exfalso.
+    pose proof (ipc_pot_rep_lt kc b S q Hk Hq ltac:(nra)). lra. }
+  split; [lra|]. split; intros Hst.
+  - destruct (Rle_lt_or_eq_dec _ _ HaS) as [L|L]; [exact L|]. exfalso. rewrite <- L in Hinv. lra.
+  - destruct (Rle_lt_or_eq_dec _ _ HSb) as [L|L]; [exact L|]. exfalso. rewrite L in Hinv. lra.
+Qed.
+
+(** the same for the attractive sign *)
+Lemma ipc_position_att (kc E q a b : R) :
+  kc < 0 -> 0 < q -> 0 <= a -> a <= b ->
+  ipc_pot kc a q <= E -> E <= ipc_pot kc b q ->
+  let S := sqrt (kc / E * (kc / E) - q) in
+  q <= kc / E * (kc / E) /\ ipc_pot kc S q = E /\ a <= S <= b /\
+  (ipc_pot kc a q < E -> a < S) /\ (E < ipc_pot kc b q -> S < b).
+Proof.
+  intros Hk Hq Ha Hab HEa HEb S.
+  destruct (ipc_pot_sign kc b q Hq) as [_ Hneg]. specialize (Hneg Hk).
+  assert (HE : E < 0) by lra.
+  assert (Hn : 0 < kc / E).
+  { unfold Rdiv. assert (/ E < 0) by (apply Rinv_lt_0_compat; exact HE). nra. }
+  assert (Hz : ipc_pot kc 0 q <= E).
+  { apply Rle_trans with (ipc_pot kc a q); [|exact HEa]. apply ipc_pot_att_le; try assumption. nra. }
+  assert (Hrad : q <= kc / E * (kc / E)).
+  { unfold ipc_pot in Hz. replace (0 * 0 + q) with q in Hz by ring.
+    assert (Hsq : 0 < sqrt q) by (apply sqrt_lt_R0; exact Hq).
+    assert (sqrt q <= kc / E).
+    { apply (Rmult_le_reg_r (- E)); [lra|]. replace (kc / E * - E) with (- kc) by (field; lra).
+      apply (Rmult_le_compat_r (sqrt q)) in Hz; [|lra].
+      replace (kc / sqrt q * sqrt q) with kc in Hz by (field; lra). lra. }
+    rewrite <- (sqrt_sqrt q) at 1 by lra. nra. }
+  pose proof (ipc_invert kc E q Hq Hn Hrad) as Hinv. fold S in Hinv.
+  assert (HS0 : 0 <= S) by apply sqrt_pos.
+  split; [exact Hrad|]. split; [exact Hinv|].
+  assert (HaS : a <= S).
+  { destruct (Rle_lt_dec a S) as [L|L]; [exact L|]. exfalso.
+    pose proof (ipc_pot_att_lt kc S a q Hk Hq ltac:(nra)). lra. }
+  assert (HSb : S <= b).
+  { destruct (Rle_lt_dec S b) as [L|L]; [exact L|]. exfalso.
+    pose proof (ipc_pot_att_lt kc b S q Hk Hq ltac:(nra)). lra. }
+  split; [lra|]. split; intros Hst.
+  - destruct (Rle_lt_or_eq_dec _ _ HaS) as [L|L]; [exact L|]. exfalso. rewrite <- L in Hinv. lra.
+  - destruct (Rle_lt_or_eq_dec _ _ HSb) as [L|L]; [exact L|]. exfalso. rewrite L in Hinv. lra.
+Qed.
+
+Lemma ipc_path_at_0 (kc x q L : R) : 0 < L -> - L / 2 <= x <= L / 2 -> ipc_path kc x q L 0 = ipc_pot kc x q.
+Proof. intros HL Hx. rewrite ipc_path_window by lra. f_equal. ring. Qed.
+Lemma ipc_path_at_minus (kc x q L S : R) :
+  0 < L -> 0 <= S <= L / 2 -> ipc_path kc x q L (x - S) = ipc_pot kc S q.
+Proof. intros HL HS. rewrite ipc_path_window by lra. f_equal. ring. Qed.
+Lemma ipc_path_at_plus (kc x q L S : R) :
+  0 < L -> 0 <= S <= L / 2 -> ipc_path kc x q L (x + S) = ipc_pot kc S q.
+Proof. intros HL HS. rewrite ipc_path_window by lra. apply ipc_pot_sq. ring. Qed.
+Lemma ipc_path_at_next_minus (kc x q L S : R) :
+  0 < L -> 0 <= S <= L / 2 -> ipc_path kc x q L (x + L - S) = ipc_pot kc S q.
+Proof.
+  intros HL HS. replace (x + L - S) with (x - S + L) by ring.
+  rewrite ipc_path_periodic by exact HL. apply ipc_path_at_minus; assumption.
+Qed.
+Lemma ipc_path_at_next_plus (kc x q L S : R) :
+  0 < L -> 0 <= S <= L / 2 -> ipc_path kc x q L (x + L + S) = ipc_pot kc S q.
+Proof.
+  intros HL HS. replace (x + L + S) with (x + S + L) by ring.
+  rewrite ipc_path_periodic by exact HL. apply ipc_path_at_plus; assumption.
+Qed.
+
+Lemma ipc_breaks4 (x L : R) : ipc_breaks x L 4 = [x; x + L / 2; x + L; x + 3 * (L / 2)].
+Proof.
+  unfold ipc_breaks. simpl.
+  f_equal; [field | f_equal; [field | f_equal; [field | f_equal; field]]].
+Qed.
+
+Lemma Eplus4 f b0 b1 b2 b3 d :
+  Eplus f [b0; b1; b2; b3] d =
+  Rmax 0 (f (clamp d b0) - f 0) + (Rmax 0 (f (clamp d b1) - f (clamp d b0)) +
+  (Rmax 0 (f (clamp d b2) - f (clamp d b1)) + (Rmax 0 (f (clamp d b3) - f (clamp d b2)) +
+   Rmax 0 (f d - f (clamp d b3))))).
+Proof. reflexivity. Qed.
+
+(** *** the last lap, repulsive sign *)
+Lemma ipc_last_lap_rep (kc e x q L : R) :
+  0 < L -> 0 < q -> 0 < kc -> - L / 2 <= x <= L / 2 -> 0 <= e < ipc_per_lap kc q L ->
+  0 <= ipc_rest kc e x q L /\
+  Eplus (ipc_path kc x q L) (ipc_breaks x L 4) (ipc_rest kc e x q L) = e.
+Proof.
+  intros HL Hq Hk Hx He. rewrite ipc_breaks4.
+  unfold ipc_per_lap in He. unfold ipc_rest. cbv zeta.
+  destruct (Rlt_dec 0 kc) as [_|N]; [|contradiction].
+  set (h := L / 2) in *.
+  set (Uz := ipc_pot kc 0 q) in *. set (Uh := ipc_pot kc h q) in *. set (U0 := ipc_pot kc x q) in *.
+  assert (Hh : 0 < h) by (unfold h; lra).
+  assert (HUzh : Uh <= Uz) by (apply ipc_pot_rep_le; try assumption; nra).
+  assert (HU0h : Uh <= U0) by (apply ipc_pot_rep_le; try assumption; pose proof (sq_bound x h ltac:(unfold h in *; lra)); lra).
+  assert (HU0z : U0 <= Uz) by (apply ipc_pot_rep_le; try assumption; nra).
+  rewrite Rabs_right in He by lra.
+  assert (Ef0 : ipc_path kc x q L 0 = U0) by (apply ipc_path_at_0; assumption).
+  assert (Efx : ipc_path kc x q L x = Uz).
+  { replace x with (x + 0) at 2 by ring. apply ipc_path_at_plus; [exact HL | lra]. }
+  assert (Efh : ipc_path kc x q L (x + h) = Uh) by (apply ipc_path_at_plus; [exact HL | unfold h; lra]).
+  destruct (Rle_dec x 0) as [Hx0|Hx0].
+  - (* in front: runs down to the half-way point, then climbs towards the next image *)
+    destruct (ipc_position_rep kc (Uh + e) q 0 h Hk Hq ltac:(lra) ltac:(lra) ltac:(fold Uh; lra) ltac:(fold Uz; lra))
+      as (Hrad & Hinv & [HS0 HSh] & Hst0 & _).
+    fold Uz in Hst0. specialize (Hst0 ltac:(lra)).
+    set (S := sqrt (kc / (Uh + e) * (kc / (Uh + e)) - q)) in *.
+    replace (h + x + (h - S)) with (x + L - S) by (unfold h; field).
+    split; [unfold h in *; lra|]. rewrite Eplus4.
+    rewrite (clamp_low _ x) by (unfold h in *; lra).
+    rewrite (clamp_mid _ (x + h)) by (unfold h in *; lra).
+    rewrite (clamp_high _ (x + L)) by (unfold h in *; lra).
+    rewrite (clamp_high _ (x + 3 * h)) by (unfold h in *; lra).
+    rewrite (ipc_path_at_next_minus kc x q L S HL ltac:(unfold h in *; lra)).
+    rewrite Ef0, Efh, Hinv. rmax_lra.
+  - apply Rnot_le_lt in Hx0.
+    destruct (Rle_dec (Uz - U0) e) as [Hov|Hov].
+    + (* passes the closest approach, then as above *)
+      destruct (ipc_position_rep kc (Uh + (e - (Uz - U0))) q 0 h Hk Hq ltac:(lra) ltac:(lra)
+                  ltac:(fold Uh; lra) ltac:(fold Uz; lra)) as (Hrad & Hinv & [HS0 HSh] & Hst0 & _).
+      fold Uz in Hst0. specialize (Hst0 ltac:(lra)).
+      set (S := sqrt (kc / (Uh + (e - (Uz - U0))) * (kc / (Uh + (e - (Uz - U0)))) - q)) in *.
+      replace (x + h + (h - S)) with (x + L - S) by (unfold h; field).
+      split; [unfold h in *; lra|]. rewrite Eplus4.
+      rewrite (clamp_mid _ x) by (unfold h in *; lra).
+      rewrite (clamp_mid _ (x + h)) by (unfold h in *; lra).
+      rewrite (clamp_high _ (x + L)) by (unfold h in *; lra).
+      rewrite (clamp_high _ (x + 3 * h)) by (unfold h in *; lra).
+      rewrite (ipc_path_at_next_minus kc x q L S HL ltac:(unfold h in *; lra)).
+      rewrite Ef0, Efx, Efh, Hinv. rmax_lra.
+    + apply Rnot_le_lt in Hov.
+      destruct (ipc_position_rep kc (U0 + e) q 0 x Hk Hq ltac:(lra) ltac:(lra) ltac:(fold U0; lra) ltac:(fold Uz; lra))
+        as (Hrad & Hinv & [HS0 HSx] & Hst0 & _).
+      fold Uz in Hst0. specialize (Hst0 ltac:(lra)).
+      set (S := sqrt (kc / (U0 + e) * (kc / (U0 + e)) - q)) in *.
+      split; [lra|]. rewrite Eplus4.
+      rewrite (clamp_high _ x) by lra.
+      rewrite (clamp_high _ (x + h)) by lra.
+      rewrite (clamp_high _ (x + L)) by (unfold h in *; lra).
+      rewrite (clamp_high _ (x + 3 * h)) by lra.
+      rewrite (ipc_path_at_minus kc x q L S HL ltac:(unfold h in *; lra)).
+      rewrite Ef0, Hinv. rmax_lra.
+Qed.
+
+(** *** the last lap, attractive sign *)
+Lemma ipc_last_lap_att (kc e x q L : R) :
+  0 < L -> 0 < q -> kc < 0 -> - L / 2 <= x <= L / 2 -> 0 <= e < ipc_per_lap kc q L ->
+  0 <= ipc_rest kc e x q L /\
+  Eplus (ipc_path kc x q L) (ipc_breaks x L 4) (ipc_rest kc e x q L) = e.
+Proof.
+  intros HL Hq Hk Hx He. rewrite ipc_breaks4.
+  unfold ipc_per_lap in He. unfold ipc_rest. cbv zeta.
+  destruct (Rlt_dec 0 kc) as [Y|_]; [lra|].
+  set (h := L / 2) in *.
+  set (Uz := ipc_pot kc 0 q) in *. set (Uh := ipc_pot kc h q) in *. set (U0 := ipc_pot kc x q) in *.
+  assert (Hh : 0 < h) by (unfold h; lra).
+  assert (HUzh : Uz <= Uh) by (apply ipc_pot_att_le; try assumption; nra).
+  assert (HU0h : U0 <= Uh) by (apply ipc_pot_att_le; try assumption; pose proof (sq_bound x h ltac:(unfold h in *; lra)); lra).
+  assert (HU0z : Uz <= U0) by (apply ipc_pot_att_le; try assumption; nra).
+  rewrite Rabs_left1 in He by lra.
+  assert (Ef0 : ipc_path kc x q L 0 = U0) by (apply ipc_path_at_0; assumption).
+  assert (Efx : ipc_path kc x q L x = Uz).
+  { replace x with (x + 0) at 2 by ring. apply ipc_path_at_plus; [exact HL | lra]. }
+  assert (Efh : ipc_path kc x q L (x + h) = Uh) by (apply ipc_path_at_plus; [exact HL | unfold h; lra]).
+  assert (EfL : ipc_path kc x q L (x + L) = Uz).
+  { replace (x + L) with (x + L + 0) by ring. apply ipc_path_at_next_plus; [exact HL | lra]. }
+  destruct (Rlt_dec 0 x) as [Hx0|Hx0].
+  - (* behind: runs down to the closest approach, then climbs away from the image *)
+    destruct (ipc_position_att kc (Uz + e) q 0 h Hk Hq ltac:(lra) ltac:(lra) ltac:(fold Uz; lra) ltac:(fold Uh; lra))
+      as (Hrad & Hinv & [HS0 HSh] & _ & Hsth).
+    fold Uh in Hsth. specialize (Hsth ltac:(lra)).
+    set (S := sqrt (kc / (Uz + e) * (kc / (Uz + e)) - q)) in *.
+    replace (x + (0 + S)) with (x + S) by ring.
+    split; [lra|]. rewrite Eplus4.
+    rewrite (clamp_mid _ x) by lra.
+    rewrite (clamp_high _ (x + h)) by lra.
+    rewrite (clamp_high _ (x + L)) by (unfold h in *; lra).
+    rewrite (clamp_high _ (x + 3 * h)) by lra.
+    rewrite (ipc_path_at_plus kc x q L S HL ltac:(unfold h in *; lra)).
+    rewrite Ef0, Efx, Hinv. rmax_lra.
+  - apply Rnot_lt_le in Hx0.
+    destruct (Rle_dec (Uh - U0) e) as [Hov|Hov].
+    + (* climbs to the half-way point, runs down to the next image, climbs away from it *)
+      destruct (ipc_position_att kc (Uz + (e - (Uh - U0))) q 0 h Hk Hq ltac:(lra) ltac:(lra)
+                  ltac:(fold Uz; lra) ltac:(fold Uh; lra)) as (Hrad & Hinv & [HS0 HSh] & _ & Hsth).
+      fold Uh in Hsth. specialize (Hsth ltac:(lra)).
+      set (S := sqrt (kc / (Uz + (e - (Uh - U0))) * (kc / (Uz + (e - (Uh - U0)))) - q)) in *.
+      replace (x + L + (0 + S)) with (x + L + S) by ring.
+      split; [unfold h in *; lra|]. rewrite Eplus4.
+      rewrite (clamp_low _ x) by (unfold h in *; lra).
+      rewrite (clamp_mid _ (x + h)) by (unfold h in *; lra).
+      rewrite (clamp_mid _ (x + L)) by (unfold h in *; lra).
+      rewrite (clamp_high _ (x + 3 * h)) by (unfold h in *; lra).
+      rewrite (ipc_path_at_next_plus kc x q L S HL ltac:(unfold h in *; lra)).
+      rewrite Ef0, Efh, EfL, Hinv. rmax_lra.
+    + apply Rnot_le_lt in Hov.
+      destruct (ipc_position_att kc (U0 + e) q (- x) h Hk Hq ltac:(lra) ltac:(unfold h in *; lra)) as
+        (Hrad & Hinv & [HS0 HSh] & _ & Hsth).
+      { replace (ipc_pot kc (- x) q) with U0 by (apply ipc_pot_sq; ring). lra. }
+      { fold Uh. lra. }
+      fold Uh in Hsth. specialize (Hsth ltac:(lra)).
+      set (S := sqrt (kc / (U0 + e) * (kc / (U0 + e)) - q)) in *.
+      split; [lra|]. rewrite Eplus4.
+      rewrite (clamp_low _ x) by lra.
+      rewrite (clamp_high _ (x + h)) by lra.
+      rewrite (clamp_high _ (x + L)) by (unfold h in *; lra).
+      rewrite (clamp_high _ (x + 3 * h)) by lra.
+      rewrite (ipc_path_at_plus kc x q L S HL ltac:(unfold h in *; lra)).
+      rewrite Ef0, Hinv. rmax_lra.
+Qed.
+
+(** *** whole laps: the positive variation gains exactly [ipc_per_lap] per box length *)
+Lemma clamp_shift (d b L : R) : 0 <= d -> 0 <= b -> 0 < L -> clamp (d + L) (b + L) = clamp d b + L.
+Proof.
+  intros Hd Hb HL. unfold clamp.
+  assert (E : Rmin (d + L) (b + L) = Rmin d b + L).
+  { unfold Rmin. destruct (Rle_dec (d + L) (b + L)), (Rle_dec d b); lra. }
+  rewrite E. assert (0 <= Rmin d b) by (apply Rmin_glb; assumption).
+  rewrite !Rmax_right by lra. reflexivity.
+Qed.
+
+Lemma pos_var_shift (f : R -> R) (L d a : R) (bs : list R) :
+  (forall s, f (s + L) = f s) -> 0 < L -> 0 <= d -> List.Forall (fun b => 0 <= b) bs ->
+  pos_var_from f (d + L) (a + L) (map (fun b => b + L) bs) = pos_var_from f d a bs.
+Proof.
+  intros Hper HL Hd H. revert a. induction H as [|b bs Hb _ IH]; intros a; simpl.
+  - rewrite !Hper. reflexivity.
+  - rewrite clamp_shift by assumption. rewrite IH, !Hper. reflexivity.
+Qed.
+
+Lemma ipc_breaks_SS (x L : R) (n : nat) :
+  ipc_breaks x L (S (S n)) = x :: (x + L / 2) :: map (fun b => b + L) (ipc_breaks x L n).
+Proof.
+  unfold ipc_breaks. simpl seq. rewrite <- seq_shift, <- seq_shift. rewrite !map_map. simpl map.
+  f_equal; [simpl; ring|]. f_equal; [simpl; ring|].
+  rewrite map_map. apply map_ext. intros j. rewrite !S_INR. field.
+Qed.
+
+Lemma ipc_breaks_nonneg (x L : R) (n : nat) :
+  0 < L -> - L / 2 <= x -> List.Forall (fun b => 0 <= b) (map (fun b => b + L) (ipc_breaks x L n)).
+Proof.
+  intros HL Hx. apply Forall_forall. intros b Hb. apply in_map_iff in Hb. destruct Hb as (c & <- & Hc).
+  unfold ipc_breaks in Hc. apply in_map_iff in Hc. destruct Hc as (j & <- & _).
+  pose proof (pos_INR j). nra.
+Qed.
+
+Lemma ipc_per_lap_pos (kc q L : R) : 0 < L -> 0 < q -> kc <> 0 -> 0 < ipc_per_lap kc q L.
+Proof.
+  intros HL Hq Hk. unfold ipc_per_lap. apply Rabs_pos_lt.
+  destruct (Rdichotomy _ _ Hk) as [Hn|Hp].
+  - pose proof (ipc_pot_att_lt kc 0 (L / 2) q Hn Hq ltac:(nra)). lra.
+  - pose proof (ipc_pot_rep_lt kc 0 (L / 2) q Hp Hq ltac:(nra)). lra.
+Qed.
+
+Lemma ipc_one_more_lap (kc x q L d : R) (n : nat) :
+  0 < L -> 0 < q -> kc <> 0 -> - L / 2 <= x <= L / 2 -> 0 <= d ->
+  Eplus (ipc_path kc x q L) (ipc_breaks x L (S (S (S (S n))))) (d + L) =
+  ipc_per_lap kc q L + Eplus (ipc_path kc x q L) (ipc_breaks x L (S (S n))) d.
+Proof.
+  intros HL Hq Hk Hx Hd.
+  set (f := ipc_path kc x q L). set (h := L / 2).
+  assert (Hper : forall s, f (s + L) = f s) by (intros; apply ipc_path_periodic; exact HL).
+  rewrite (ipc_breaks_SS x L (S (S n))). rewrite (ipc_breaks_SS x L n).
+  set (rest := map (fun b => b + L) (ipc_breaks x L n)).
+  assert (Hrest : List.Forall (fun b => 0 <= b) rest) by (apply ipc_breaks_nonneg; lra).
+  unfold Eplus. simpl map. simpl pos_var_from. fold h.
+  (* the tail after the fourth break point equals, by periodicity, the tail of the shorter path *)
+  replace (x + h + L) with ((x + h) + L) by ring.
+  rewrite (clamp_shift d (x + h) L Hd ltac:(unfold h; lra) HL).
+  rewrite (pos_var_shift f L d (clamp d (x + h)) rest Hper HL Hd Hrest).
+  rewrite (Hper (clamp d (x + h))).
+  rewrite (clamp_mid (d + L) (x + h)) by (unfold h; lra).
+  set (Uz := ipc_pot kc 0 q). set (Uh := ipc_pot kc h q). set (U0 := ipc_pot kc x q).
+  assert (Ef0 : f 0 = U0) by (unfold f, U0; apply ipc_path_at_0; assumption).
+  assert (Efx : f x = Uz).
+  { unfold f, Uz. replace x with (x + 0) at 2 by ring. apply ipc_path_at_plus; [exact HL | lra]. }
+  assert (Efh : f (x + h) = Uh) by (unfold f, Uh; apply ipc_path_at_plus; [exact HL | unfold h; lra]).
+  assert (EfL : f (x + L) = Uz) by (rewrite Hper; exact Efx).
+  assert (Hwin : forall c, 0 <= c <= x + h -> f c = ipc_pot kc (x - c) q).
+  { intros c Hc. unfold f. apply ipc_path_window; [exact HL | unfold h in *; lra]. }
+  rewrite Ef0, Efh. unfold ipc_per_lap. fold h. fold Uz Uh.
+  set (T := pos_var_from f d (clamp d (x + h)) rest).
+  destruct (Rle_lt_dec 0 x) as [Hx0|Hx0].
+  - (* x >= 0 *)
+    rewrite (clamp_mid (d + L) x) by lra. rewrite Efx.
+    rewrite (clamp_shift d x L Hd Hx0 HL). rewrite (Hper (clamp d x)).
+    set (c := clamp d x).
+    assert (Hc : 0 <= c <= x).
+    { unfold c, clamp. split; [apply Rmax_l|]. apply Rmax_lub; [exact Hx0 | apply Rmin_r]. }
+    rewrite (Hwin c ltac:(unfold h; lra)).
+    pose proof (sq_bound (x - c) x ltac:(lra)) as Hsq.
+    pose proof (sq_bound x h ltac:(unfold h; lra)) as Hsqx.
+    set (Fc := ipc_pot kc (x - c) q). set (Fh := f (clamp d (x + h))).
+    destruct (Rdichotomy _ _ Hk) as [Hn|Hp].
+    + assert (Uz <= Fc) by (apply ipc_pot_att_le; try assumption; nra).
+      assert (Fc <= U0) by (apply ipc_pot_att_le; assumption).
+      assert (U0 <= Uh) by (apply ipc_pot_att_le; assumption).
+      rewrite Rabs_left1 by lra. rmax_lra.
+    + assert (Fc <= Uz) by (apply ipc_pot_rep_le; try assumption; nra).
+      assert (U0 <= Fc) by (apply ipc_pot_rep_le; assumption).
+      assert (Uh <= U0) by (apply ipc_pot_rep_le; assumption).
+      rewrite Rabs_right by lra. rmax_lra.
+  - (* x < 0 *)
+    rewrite (clamp_low (d + L) x) by lra. rewrite (clamp_low d x) by lra. rewrite Ef0.
+    rewrite (clamp_mid (d + L) (x + L)) by lra. rewrite EfL.
+    set (c := clamp d (x + h)).
+    assert (Hc : 0 <= c <= x + h).
+    { unfold c, clamp. split; [apply Rmax_l|]. apply Rmax_lub; [unfold h; lra | apply Rmin_r]. }
+    rewrite (Hwin c Hc).
+    pose proof (sq_bound (x - c) h ltac:(unfold h in *; lra)) as Hsq.
+    pose proof (sq_bound_ge (x - c) (- x) ltac:(lra) ltac:(right; lra)) as Hsq2.
+    pose proof (sq_bound x h ltac:(unfold h; lra)) as Hsqx.
+    set (Fc := ipc_pot kc (x - c) q).
+    destruct (Rdichotomy _ _ Hk) as [Hn|Hp].
+    + assert (U0 <= Fc) by (apply ipc_pot_att_le; try assumption; nra).
+      assert (Fc <= Uh) by (apply ipc_pot_att_le; assumption).
+      assert (Uz <= U0) by (apply ipc_pot_att_le; try assumption; nra).
+      rewrite Rabs_left1 by lra. rmax_lra.
+    + assert (Fc <= U0) by (apply ipc_pot_rep_le; try assumption; nra).
+      assert (Uh <= Fc) by (apply ipc_pot_rep_le; assumption).
+      assert (U0 <= Uz) by (apply ipc_pot_rep_le; try assumption; nra).
+      rewrite Rabs_right by lra. rmax_lra.
+Qed.
+
+Lemma ipc_n_laps (kc x q L d : R) (n m : nat) :
+  0 < L -> 0 < q -> kc <> 0 -> - L / 2 <= x <= L / 2 -> 0 <= d ->
+  Eplus (ipc_path kc x q L) (ipc_breaks x L (2 * n + S (S m))) (d + INR n * L) =
+  INR n * ipc_per_lap kc q L + Eplus (ipc_path kc x q L) (ipc_breaks x L (S (S m))) d.
+Proof.
+  intros HL Hq Hk Hx Hd. induction n as [|n IH].
+  - simpl (2 * 0 + S (S m))%nat. simpl INR. replace (d + 0 * L) with d by ring. ring.
+  - replace (2 * S n + S (S m))%nat with (S (S (S (S (2 * n + m))))) by lia.
+    replace (d + INR (S n) * L) with (d + INR n * L + L) by (rewrite S_INR; ring).
+    rewrite ipc_one_more_lap; try assumption.
+    + replace (S (S (2 * n + m))) with (2 * n + S (S m))%nat by lia.
+      rewrite IH. rewrite S_INR. ring.
+    + pose proof (pos_INR n). nra.
+Qed.
+
+(** [laps_correct]: the displacement of the C routine is n box lengths plus the inversion on the last lap,
+    n = floor (budget / gain per lap), and the positive variation of the nearest-image potential at that distance is
+    the budget *)
+Theorem ipc_laps_correct (kc dE x q L d : R) :
+  0 < L -> 0 < q -> kc <> 0 -> 0 < dE -> - L / 2 <= x <= L / 2 ->
+  ipc_displacement kc dE x q L = Some d ->
+  exists (n : nat) (r : R),
+    Int_part (dE / ipc_per_lap kc q L) = Z.of_nat n /\
+    INR n * ipc_per_lap kc q L <= dE < (INR n + 1) * ipc_per_lap kc q L /\
+    d = INR n * L + r /\ 0 <= r /\
+    Eplus (ipc_path kc x q L) (ipc_breaks x L 4) r = dE - INR n * ipc_per_lap kc q L /\
+    Eplus (ipc_path kc x q L) (ipc_breaks x L (2 * n + 4)) d = dE.
+Proof.
+  intros HL Hq Hk HdE Hx H.
+  pose proof (ipc_per_lap_pos kc q L HL Hq Hk) as Hg.
+  set (g := ipc_per_lap kc q L) in *.
+  unfold ipc_displacement, ipc_displacement_laps in H. fold g in H. injection H as <-.
+  destruct (base_Int_part (dE / g)) as [B1 B2].
+  set (z := Int_part (dE / g)) in *.
+  assert (Hquot : 0 < dE / g) by (apply Rdiv_lt_0_compat; assumption).
+  assert (Hz : (0 <= z)%Z).
+  { apply le_IZR. assert (-1 < IZR z) by lra. apply lt_IZR in H. apply IZR_le. lia. }
+  exists (Z.to_nat z).
+  assert (EIN : INR (Z.to_nat z) = IZR z) by (rewrite INR_IZR_INZ, Z2Nat.id by exact Hz; reflexivity).
+  set (e := dE - IZR z * g).
+  assert (He : 0 <= e < g).
+  { unfold e. assert (IZR z * g <= dE) by (apply (Rmult_le_compat_r g) in B1; [|lra];
+      replace (dE / g * g) with dE in B1 by (field; lra); exact B1).
+    assert (dE < (IZR z + 1) * g).
+    { assert (dE / g < IZR z + 1) by lra. apply (Rmult_lt_compat_r g) in H0; [|exact Hg].
+      replace (dE / g * g) with dE in H0 by (field; lra). exact H0. }
+    lra. }
+  assert (Hlast : 0 <= ipc_rest kc e x q L /\
+                  Eplus (ipc_path kc x q L) (ipc_breaks x L 4) (ipc_rest kc e x q L) = e).
+  { destruct (Rdichotomy _ _ Hk) as [Hn|Hp];
+      [apply ipc_last_lap_att | apply ipc_last_lap_rep]; assumption. }
+  destruct Hlast as [Hr0 HrE].
+  exists (ipc_rest kc e x q L). rewrite EIN.
+  split; [rewrite Z2Nat.id by exact Hz; reflexivity|].
+  split; [unfold e in He; lra|]. split; [reflexivity|]. split; [exact Hr0|]. split; [exact HrE|].
+  replace (IZR z * L + ipc_rest kc e x q L) with (ipc_rest kc e x q L + INR (Z.to_nat z) * L) by (rewrite EIN; ring).
+  replace (2 * Z.to_nat z + 4)%nat with (2 * Z.to_nat z + S (S 2))%nat by lia.
+  rewrite ipc_n_laps by assumption. fold g. rewrite EIN.
+  change (S (S 2)) with 4%nat. rewrite HrE. unfold e. ring.
+Qed.
+
+(** ** C02: hard dipole — first contact with the inner sphere, else the time of reaching the maximal separation *)
+Lemma hd_inner (min2 max2 : R) (v s : vec3) (t : R) :
+  hs_displacement min2 v s = Some t -> hd_displacement min2 max2 v s = t.
+Proof.
+  intros H. destruct (hs_cases min2 v s) as [[HD [Hvs E]]|[_ E]]; rewrite E in H; [|discriminate].
+  injection H as <-. unfold hd_displacement. cbv zeta in *.
+  destruct (Rle_dec 0 (dot3 v s)) as [_|N]; [|contradiction].
+  destruct (Rle_dec 0 _) as [_|N]; [reflexivity | contradiction].
+Qed.
+
+Lemma hd_outer (min2 max2 : R) (v s : vec3) :
+  hs_displacement min2 v s = None ->
+  hd_displacement min2 max2 v s =
+  (dot3 v s + sqrt (dot3 v s * dot3 v s - dot3 v v * (dot3 s s - max2))) / dot3 v v.
+Proof.
+  intros H. destruct (hs_cases min2 v s) as [[HD [Hvs E]]|[C _]]; [rewrite E in H; discriminate|].
+  unfold hd_displacement. cbv zeta in *.
+  destruct (Rle_dec 0 (dot3 v s)) as [Hv|Hv]; [|reflexivity].
+  destruct (Rle_dec 0 _) as [Y|_]; [|reflexivity]. exfalso. destruct C; lra.
+Qed.
+
+Theorem hd_reaches_max (min2 max2 : R) (v s : vec3) :
+  0 < dot3 v v -> dot3 s s <= max2 ->
+  hs_displacement min2 v s = None ->
+  let t := hd_displacement min2 max2 v s in
+  0 <= t /\
+  dot3 (sub3 s (scal3 t v)) (sub3 s (scal3 t v)) = max2 /\
+  (forall t', 0 <= t' <= t -> dot3 (sub3 s (scal3 t' v)) (sub3 s (scal3 t' v)) <= max2) /\
+  (forall t', t < t' -> max2 < dot3 (sub3 s (scal3 t' v)) (sub3 s (scal3 t' v))).
+Proof.
+  intros Hvv Hss HN t. unfold t. rewrite (hd_outer min2 max2 v s HN). clear t.
+  set (vv := dot3 v v) in *. set (ss := dot3 s s) in *. set (vs := dot3 v s) in *.
+  set (D := vs * vs - vv * (ss - max2)).
+  assert (HD : 0 <= D) by (unfold D; nra).
+  pose proof (sqrt_pos D) as Hs0. pose proof (sqrt_sqrt D HD) as Hs2.
+  assert (Habs : - sqrt D <= vs <= sqrt D).
+  { split.
+    - destruct (Rle_lt_dec (- sqrt D) vs) as [L|L]; [exact L|]. exfalso.
+      assert (sqrt D * sqrt D < vs * vs) by nra. unfold D in *. nra.
+    - destruct (Rle_lt_dec vs (sqrt D)) as [L|L]; [exact L|]. exfalso.
+      assert (sqrt D * sqrt D < vs * vs) by nra. unfold D in *. nra. }
+  set (t := (vs + sqrt D) / vv).
+  assert (Et : vv * t = vs + sqrt D) by (unfold t; field; lra).
+  assert (Hkey : forall t', vv * (ss - 2 * t' * vs + t' * t' * vv - max2) = (vv * t' - vs) * (vv * t' - vs) - D)
+    by (intros; unfold D; ring).
+  split; [|split; [|split]].
+  - unfold t. apply Rmult_le_pos; [lra | left; apply Rinv_0_lt_compat; exact Hvv].
+  - rewrite dist_sq_path. fold vv ss vs.
+    pose proof (Hkey t) as K. rewrite Et in K.
+    assert (vv * (ss - 2 * t * vs + t * t * vv - max2) = 0) by (rewrite K; ring_simplify; lra).
+    assert (ss - 2 * t * vs + t * t * vv - max2 = 0) by nra. lra.
+  - intros t' [H0 Ht']. rewrite dist_sq_path. fold vv ss vs.
+    pose proof (Hkey t') as K.
+    assert (- sqrt D <= vv * t' - vs <= sqrt D) by (split; nra).
+    assert ((vv * t' - vs) * (vv * t' - vs) <= sqrt D * sqrt D) by (apply sq_bound; lra).
+    assert (vv * (ss - 2 * t' * vs + t' * t' * vv - max2) <= 0) by lra.
+    assert (ss - 2 * t' * vs + t' * t' * vv - max2 <= 0) by nra. lra.
+  - intros t' Ht'. rewrite dist_sq_path. fold vv ss vs.
+    pose proof (Hkey t') as K.
+    assert (sqrt D < vv * t' - vs) by nra.
+    assert (sqrt D * sqrt D < (vv * t' - vs) * (vv * t' - vs)) by nra.
+    assert (0 < vv * (ss - 2 * t' * vs + t' * t' * vv - max2)) by lra.
+    assert (0 < ss - 2 * t' * vs + t' * t' * vv - max2) by nra. lra.
 Qed.
